@@ -492,17 +492,15 @@ Proof.
   destruct (p_conn p) as [k|]; [reflexivity|]. destruct H as [H|H]; [congruence|]. rewrite H. reflexivity.
 Qed.
 
-Lemma connect_to_peer_g (P : output -> Prop) pm n name h res :
-  sysP P -> dialP pm P -> pmap n = pm ->
-  (forall p, get_peer n name = Some p -> p_persistent p = true) ->
+Lemma connect_to_peer_g0 (P : output -> Prop) n name h res :
+  sysP P -> (forall p, get_peer n name = Some p -> P (ODial name)) ->
   gres P n (connect_to_peer n name h res).
 Proof.
-  intros HP HD Hpm Hpers. pose proof HP as [HQ [HC HS]]. unfold connect_to_peer.
+  intros HP HDn0. pose proof HP as [HQ [HC HS]]. unfold connect_to_peer.
   destruct (get_peer n name) as [p|] eqn:Ep; [|apply gres_refl].
   destruct (p_conn p); [apply gres_refl|].
   destruct (negb (p_has_addr p)); [apply gres_refl|].
-  assert (HDn : P (ODial name)).
-  { apply HD. rewrite <- Hpm, pers_in_pmap, Ep. apply Hpers. reflexivity. }
+  assert (HDn : P (ODial name)) by (apply (HDn0 p); reflexivity).
   cbv zeta.
   match goal with |- context [close_conn ?x _ _] => set (n3 := x) end.
   assert (F3 : frame n n3).
@@ -520,6 +518,15 @@ Proof.
   - match goal with |- context [close_conn ?x ?c ?r] => pose proof (close_conn_g P x c r (HC _ _)) as G; destruct (close_conn x c r) as [n4 o] end.
     apply gres_cons; [exact HDn|]. eapply gres_pre; [exact F3|exact G].
   - split; [exact F3|]. constructor; [exact HDn|constructor].
+Qed.
+
+Lemma connect_to_peer_g (P : output -> Prop) pm n name h res :
+  sysP P -> dialP pm P -> pmap n = pm ->
+  (forall p, get_peer n name = Some p -> p_persistent p = true) ->
+  gres P n (connect_to_peer n name h res).
+Proof.
+  intros HP HD Hpm Hpers. apply connect_to_peer_g0; [exact HP|].
+  intros p Ep. apply HD. rewrite <- Hpm, pers_in_pmap, Ep. apply Hpers, Ep.
 Qed.
 
 Lemma reconnect_all_g (P : output -> Prop) pm names :
@@ -986,3 +993,1366 @@ Lemma send_message_req_eq n cid m :
   send_message n cid m =
   (set_conns n (upd_conn (n_conns n) cid (fun c => set_cout c (c_out c ++ [m])%list)), [OQueue cid m]).
 Proof. intros H. unfold send_message, queue_out. rewrite H. reflexivity. Qed.
+
+Lemma seq_next_is_next s : seq_next s = next 1 4294967295 s.
+Proof. reflexivity. Qed.
+Lemma seq_next_range s : 1 <= s <= 4294967295 -> 1 <= seq_next s <= 4294967295.
+Proof. intros H. rewrite seq_next_is_next. apply next_range; [lia|exact H]. Qed.
+Lemma seq_next_nonzero s : 1 <= s <= 4294967295 -> seq_next s <> 0.
+Proof. intros H. rewrite seq_next_is_next. apply next_nonzero; [lia|exact H]. Qed.
+Lemma seq_next_neq s : 1 <= s <= 4294967295 -> seq_next s <> s.
+Proof. intros H. unfold seq_next. destruct (s =? 4294967295) eqn:E; lia. Qed.
+
+Lemma req_core_shape n0 e2e ds i m realm pick timeout n' outs :
+  req_core n0 e2e ds i m realm pick timeout = (n', outs) ->
+  (n' = n0 /\ outs = [ONotRoutable]) \/
+  exists usable p cid c m' n4 rest,
+    route_request n0 i realm = Some usable /\ usable <> [] /\ choose usable pick = Some p /\
+    p_conn p = Some cid /\ get_conn n0 cid = Some c /\
+    outs = OQueue cid m' :: rest /\ settle' n4 ds = (n', rest) /\ List.Forall (sysout (pmap n0)) rest /\
+    o_req m' = true /\ o_cmd m' = o_cmd m /\ o_tag m' = o_tag m /\
+    o_hbh m' = (if o_hbh m =? 0 then seq_next (c_hbh c) else o_hbh m) /\ o_e2e m' = e2e /\
+    (exists c4, get_conn n4 cid = Some c4 /\
+                c_hbh c4 = (if o_hbh m =? 0 then seq_next (c_hbh c) else c_hbh c) /\
+                c_out c4 = (c_out c ++ [m'])%list /\ c_state c4 = c_state c) /\
+    n_e2e n4 = n_e2e n0 /\ List.In (o_hbh m', e2e, i) (n_app_waiting n4) /\ frame n0 n4.
+Proof.
+  unfold req_core. intros H.
+  destruct (route_request n0 i realm) as [usable|] eqn:Er; [|left; injection H as <- <-; split; reflexivity].
+  destruct usable as [|p0 us]; [left; injection H as <- <-; split; reflexivity|].
+  destruct (choose (p0 :: us) pick) as [p|] eqn:Ech; [|left; injection H as <- <-; split; reflexivity].
+  destruct (p_conn p) as [cid|] eqn:Ep; [|left; injection H as <- <-; split; reflexivity].
+  destruct (get_conn n0 cid) as [c|] eqn:Ec; [|left; injection H as <- <-; split; reflexivity].
+  right. exists (p0 :: us), p, cid, c.
+  destruct (o_hbh m =? 0) eqn:Eh; cbv zeta in H.
+  - match type of H with context [send_message ?x ?cc ?mm] => set (n3 := x) in H; set (m' := mm) in H end.
+    rewrite (send_message_req_eq n3 cid m' eq_refl) in H.
+    match type of H with context [settle' ?x ds] => set (n4 := x) in H end.
+    pose proof (settle'_sys n4 ds) as G. destruct (settle' n4 ds) as [n5 o5] eqn:E5. injection H as <- <-.
+    assert (F : frame n0 n4).
+    { eapply frame_trans; [apply (frame_upd_conn n0 cid (fun c0 => set_chbh c0 (seq_next (c_hbh c0)))); reflexivity|].
+      eapply frame_trans; [|apply (frame_upd_conn n3 cid (fun c0 => set_cout c0 (c_out c0 ++ [m'])%list)); reflexivity].
+      apply frame_same; reflexivity. }
+    exists m', n4, o5. split; [first [reflexivity|assumption]|]. split; [discriminate|]. split; [exact Ech|].
+    split; [first [reflexivity|assumption]|].
+    split; [first [reflexivity|assumption]|]. split; [first [reflexivity|assumption]|]. split; [first [reflexivity|assumption]|]. split.
+    { destruct G as [_ G]. cbn [snd] in G. destruct F as [[E _] _]. rewrite E in G. exact G. }
+    split; [first [reflexivity|assumption]|]. split; [first [reflexivity|assumption]|]. split; [first [reflexivity|assumption]|]. split; [first [reflexivity|assumption]|]. split; [first [reflexivity|assumption]|].
+    split.
+    { eexists. split.
+      - unfold get_conn. cbn [n4 n3 n_conns set_conns set_apps set_waiting].
+        apply find_upd_conn_same; [reflexivity|]. apply find_upd_conn_same; [reflexivity|]. exact Ec.
+      - split; [first [reflexivity|assumption]|]. split; reflexivity. }
+    split; [first [reflexivity|assumption]|]. split; [|exact F].
+    cbn [n4 n3 n_app_waiting set_conns set_apps set_waiting]. apply List.in_or_app. right. left. reflexivity.
+  - match type of H with context [send_message ?x ?cc ?mm] => set (n3 := x) in H; set (m' := mm) in H end.
+    rewrite (send_message_req_eq n3 cid m' eq_refl) in H.
+    match type of H with context [settle' ?x ds] => set (n4 := x) in H end.
+    pose proof (settle'_sys n4 ds) as G. destruct (settle' n4 ds) as [n5 o5] eqn:E5. injection H as <- <-.
+    assert (F : frame n0 n4).
+    { eapply frame_trans; [|apply (frame_upd_conn n3 cid (fun c0 => set_cout c0 (c_out c0 ++ [m'])%list)); reflexivity].
+      apply frame_same; reflexivity. }
+    exists m', n4, o5. split; [first [reflexivity|assumption]|]. split; [discriminate|]. split; [exact Ech|].
+    split; [first [reflexivity|assumption]|].
+    split; [first [reflexivity|assumption]|]. split; [first [reflexivity|assumption]|]. split; [first [reflexivity|assumption]|]. split.
+    { destruct G as [_ G]. cbn [snd] in G. destruct F as [[E _] _]. rewrite E in G. exact G. }
+    split; [first [reflexivity|assumption]|]. split; [first [reflexivity|assumption]|]. split; [first [reflexivity|assumption]|]. split; [first [reflexivity|assumption]|]. split; [first [reflexivity|assumption]|].
+    split.
+    { eexists. split.
+      - unfold get_conn. cbn [n4 n3 n_conns set_conns set_apps set_waiting].
+        apply find_upd_conn_same; [reflexivity|]. exact Ec.
+      - split; [first [reflexivity|assumption]|]. split; reflexivity. }
+    split; [first [reflexivity|assumption]|]. split; [|exact F].
+    cbn [n4 n3 n_app_waiting set_conns set_apps set_waiting]. apply List.in_or_app. right. left. reflexivity.
+Qed.
+
+(* shape of the reaction to Application.send_request: NotRoutable, or the request handed to the
+   connection of the peer chosen from route_request's list, followed only by what the I/O thread
+   does on its own.  n4 is the node before the I/O thread settles. *)
+Theorem C10_request_shape n ds i m realm pick timeout n' outs :
+  step n ds (EAppRequest i m realm pick timeout) = (n', outs) ->
+  outs = [ONotRoutable] \/
+  exists usable p cid c m' n4 rest,
+    route_request n i realm = Some usable /\ usable <> [] /\ choose usable pick = Some p /\
+    p_conn p = Some cid /\ get_conn n cid = Some c /\
+    outs = OQueue cid m' :: rest /\ settle' n4 ds = (n', rest) /\ List.Forall (sysout (pmap n)) rest /\
+    o_req m' = true /\ o_cmd m' = o_cmd m /\ o_tag m' = o_tag m /\
+    o_hbh m' = (if o_hbh m =? 0 then seq_next (c_hbh c) else o_hbh m) /\
+    o_e2e m' = (if o_e2e m =? 0 then seq_next (n_e2e n) else o_e2e m) /\
+    (exists c4, get_conn n4 cid = Some c4 /\
+                c_hbh c4 = (if o_hbh m =? 0 then seq_next (c_hbh c) else c_hbh c) /\
+                c_out c4 = (c_out c ++ [m'])%list /\ c_state c4 = c_state c) /\
+    n_e2e n4 = (if o_e2e m =? 0 then seq_next (n_e2e n) else n_e2e n) /\
+    List.In (o_hbh m', o_e2e m', i) (n_app_waiting n4).
+Proof.
+  rewrite step_app_request. intros H. apply req_core_shape in H. destruct H as [[_ H]|H]; [left; exact H|right].
+  destruct H as (usable & p & cid & c & m' & n4 & rest & H1 & H2 & H3 & H4 & H5 & H6 & H7 & H8 & H9 & H10 & H11 & H12 & H13 & H14 & H15 & H16 & _).
+  exists usable, p, cid, c, m', n4, rest. rewrite route_request_e2e in H1.
+  assert (E1 : get_conn (fst (e2e_prep n m)) cid = get_conn n cid).
+  { unfold e2e_prep. destruct (o_e2e m =? 0); reflexivity. }
+  assert (E2 : pmap (fst (e2e_prep n m)) = pmap n).
+  { unfold e2e_prep. destruct (o_e2e m =? 0); reflexivity. }
+  rewrite E1 in H5. rewrite E2 in H8. rewrite H13.
+  repeat (split; [assumption|]).
+  unfold e2e_prep in *. destruct (o_e2e m =? 0); cbn [fst snd] in *; repeat (split; try assumption); try reflexivity.
+Qed.
+
+(* C10: whatever is handed to a connection is a request; it is either the I/O thread's own
+   CER / DWR, or the application's request and then the connection is the one of the peer
+   selected from route_request's list (the only one, or the pick-th modulo the length) *)
+Theorem C10_eligible n ds i m realm pick timeout n' outs cid m' :
+  step n ds (EAppRequest i m realm pick timeout) = (n', outs) ->
+  List.In (OQueue cid m') outs ->
+  o_req m' = true /\
+  (own_req m' \/
+   exists usable p,
+     route_request n i realm = Some usable /\ List.In p usable /\ p_conn p = Some cid /\
+     (forall q, usable = [q] -> p = q) /\
+     (List.length usable <> 1%nat -> List.nth_error usable (Nat.modulo pick (List.length usable)) = Some p) /\
+     o_cmd m' = o_cmd m /\ o_tag m' = o_tag m).
+Proof.
+  intros Hs Hin. apply C10_request_shape in Hs. destruct Hs as [->|Hs].
+  - destruct Hin as [Hin|[]]. discriminate.
+  - destruct Hs as (usable & p & cid0 & c & m0 & n4 & rest & H1 & H2 & H3 & H4 & H5 & -> & H7 & H8 & H9 & H10 & H11 & _).
+    destruct Hin as [Hin|Hin].
+    + injection Hin as <- <-. split; [exact H9|]. right. exists usable, p.
+      destruct (choose_spec _ _ _ H3) as (C1 & C2 & C3). repeat split; assumption.
+    + rewrite List.Forall_forall in H8. apply H8 in Hin. cbn in Hin. split; [apply Hin|left; exact Hin].
+Qed.
+
+(* C10: no route, or no usable peer: NotRoutable and nothing else *)
+Theorem C10_none_is_error n ds i m realm pick timeout :
+  route_request n i realm = None \/ route_request n i realm = Some [] ->
+  step n ds (EAppRequest i m realm pick timeout) = (fst (e2e_prep n m), [ONotRoutable]).
+Proof.
+  intros H. rewrite step_app_request. unfold req_core. rewrite route_request_e2e.
+  destruct H as [-> | ->]; reflexivity.
+Qed.
+
+(* C10: a hop-by-hop id left 0 by the caller is drawn from the chosen connection's generator:
+   it is the successor of the generator state, the state is advanced to it, it lies in
+   1 .. 2^32-1 (so it is not 0) and differs from the previous state (so from the previous draw) *)
+Theorem C10_hbh_fresh n ds i m realm pick timeout n' outs :
+  step n ds (EAppRequest i m realm pick timeout) = (n', outs) ->
+  o_hbh m = 0 -> outs <> [ONotRoutable] ->
+  exists cid c m' rest n4 c4,
+    outs = OQueue cid m' :: rest /\ get_conn n cid = Some c /\
+    o_hbh m' = seq_next (c_hbh c) /\
+    settle' n4 ds = (n', rest) /\ get_conn n4 cid = Some c4 /\ c_hbh c4 = seq_next (c_hbh c) /\
+    (1 <= c_hbh c <= 4294967295 ->
+     1 <= o_hbh m' <= 4294967295 /\ o_hbh m' <> 0 /\ o_hbh m' <> c_hbh c /\
+     seq_next (c_hbh c4) <> o_hbh m').
+Proof.
+  intros Hs H0 Hne. apply C10_request_shape in Hs. destruct Hs as [Hs|Hs]; [contradiction|].
+  destruct Hs as (usable & p & cid & c & m' & n4 & rest & H1 & H2 & H3 & H4 & H5 & H6 & H7 & H8 & H9 & H10 & H11 & H12 & H13 & (c4 & H14 & H15 & _) & _).
+  rewrite H0 in H12, H15. cbn [Z.eqb] in H12, H15.
+  exists cid, c, m', rest, n4, c4. repeat (split; [assumption|]).
+  intros Hr. rewrite H12, H15. pose proof (seq_next_range _ Hr) as Hr'.
+  split; [exact Hr'|]. split; [apply seq_next_nonzero, Hr|]. split; [apply seq_next_neq, Hr|]. apply seq_next_neq, Hr'.
+Qed.
+
+(* ---- answers to the node's own application requests ---------------------------------- *)
+Definition aw_key (m : msg) (x : Z * Z * nat) : bool :=
+  let '(h, e, _) := x in (h =? m_hbh m) && (e =? m_e2e m).
+(* the application recorded as waiting for the answer m *)
+Definition aw_lookup (n : node) (m : msg) : option nat :=
+  match List.find (aw_key m) (n_app_waiting n) with Some x => Some (snd x) | None => None end.
+
+Lemma aw_lookup_In n m i : aw_lookup n m = Some i -> List.In (m_hbh m, m_e2e m, i) (n_app_waiting n).
+Proof.
+  unfold aw_lookup. destruct (List.find (aw_key m) (n_app_waiting n)) as [[[h e] j]|] eqn:E; [|discriminate].
+  intros H. injection H as <-. apply List.find_some in E. destruct E as [Hin Hk]. cbn [aw_key] in Hk.
+  apply andb_true_iff in Hk. destruct Hk as [H1 H2]. apply Z.eqb_eq in H1. apply Z.eqb_eq in H2. subst. exact Hin.
+Qed.
+
+Lemma aw_lookup_None n m : aw_lookup n m = None <-> forall i, ~ List.In (m_hbh m, m_e2e m, i) (n_app_waiting n).
+Proof.
+  unfold aw_lookup. split.
+  - destruct (List.find (aw_key m) (n_app_waiting n)) eqn:E; [discriminate|]. intros _ i Hin.
+    pose proof (List.find_none _ _ E _ Hin) as Hk. cbn [aw_key] in Hk. rewrite !Z.eqb_refl in Hk. discriminate.
+  - intros H. destruct (List.find (aw_key m) (n_app_waiting n)) as [[[h e] j]|] eqn:E; [|reflexivity].
+    exfalso. apply (H j). apply aw_lookup_In. unfold aw_lookup. rewrite E. reflexivity.
+Qed.
+
+Lemma nth_error_upd_app l i f a :
+  List.nth_error l i = Some a -> List.nth_error (upd_app l i f) i = Some (f a).
+Proof.
+  revert i. induction l as [|x l IH]; intros [|i]; cbn [List.nth_error upd_app]; try discriminate.
+  - intros H. injection H as <-. reflexivity.
+  - apply IH.
+Qed.
+
+Lemma nth_error_upd_app_other l i j f : i <> j -> List.nth_error (upd_app l i f) j = List.nth_error l j.
+Proof.
+  revert i j. induction l as [|x l IH]; intros [|i] [|j] H; cbn [List.nth_error upd_app]; try reflexivity.
+  - congruence.
+  - apply IH. congruence.
+Qed.
+
+Lemma mem_z_filter_out x (l : list (Z * Z)) :
+  mem_z x (List.map fst (List.filter (fun w => negb (fst w =? x)) l)) = false.
+Proof.
+  unfold mem_z. induction l as [|w l IH]; cbn [List.filter List.map List.existsb]; [reflexivity|].
+  destruct (fst w =? x) eqn:E; cbn [negb List.map List.existsb]; [exact IH|].
+  rewrite Z.eqb_sym, E. exact IH.
+Qed.
+
+(* C10: an answer is handed to the blocked caller of the application that sent the request
+   (and to no other application), or reported as unexpected to that application when nobody is
+   blocked on it any more; an answer nobody asked for produces nothing.  In the first two
+   cases the record is dropped. *)
+Theorem C10_correlation n m :
+  (forall i a, aw_lookup n m = Some i -> List.nth_error (n_apps n) i = Some a ->
+     (mem_z (m_hbh m) (List.map fst (a_waiting a)) = true ->
+      exists n', recv_app_answer n m = (n', [OAnswerTo i m]) /\ aw_lookup n' m = None /\
+                 (exists a', List.nth_error (n_apps n') i = Some a' /\
+                             mem_z (m_hbh m) (List.map fst (a_waiting a')) = false) /\
+                 (forall j, j <> i -> List.nth_error (n_apps n') j = List.nth_error (n_apps n) j)) /\
+     (mem_z (m_hbh m) (List.map fst (a_waiting a)) = false ->
+      exists n', recv_app_answer n m = (n', [OUnexpected i m]) /\ aw_lookup n' m = None /\
+                 n_apps n' = n_apps n)) /\
+  (aw_lookup n m = None -> recv_app_answer n m = (n, [])).
+Proof.
+  unfold aw_lookup, recv_app_answer. fold (aw_key m). split.
+  - intros i a Hl Ha.
+    destruct (List.find (aw_key m) (n_app_waiting n)) as [[[h e] j]|] eqn:E; [|discriminate].
+    injection Hl as Hl. cbn [snd] in Hl. subst j. rewrite Ha.
+    assert (Hnone : List.find (aw_key m)
+                      (List.filter (fun x => let '(h, e, _) := x in negb ((h =? m_hbh m) && (e =? m_e2e m))) (n_app_waiting n)) = None).
+    { rewrite (List.filter_ext _ (fun x => negb (aw_key m x))); [apply find_filter_neg|].
+      intros [[h0 e0] j0]. reflexivity. }
+    split; intros Hw; rewrite Hw; eexists; (split; [reflexivity|]).
+    + cbn [n_app_waiting n_apps set_apps set_waiting]. split; [rewrite Hnone; reflexivity|]. split.
+      * eexists. split; [apply nth_error_upd_app; exact Ha|]. cbn [a_waiting set_awaiting]. apply mem_z_filter_out.
+      * intros j Hj. apply nth_error_upd_app_other. congruence.
+    + cbn [n_app_waiting n_apps set_waiting]. split; [rewrite Hnone; reflexivity|reflexivity].
+  - destruct (List.find (aw_key m) (n_app_waiting n)); [discriminate|reflexivity].
+Qed.
+
+(* C10: a second copy of an answer is ignored *)
+Theorem C10_duplicate_ignored n m i a n1 o1 :
+  aw_lookup n m = Some i -> List.nth_error (n_apps n) i = Some a ->
+  recv_app_answer n m = (n1, o1) ->
+  (o1 = [OAnswerTo i m] \/ o1 = [OUnexpected i m]) /\ recv_app_answer n1 m = (n1, []).
+Proof.
+  intros Hl Ha Hr. destruct (C10_correlation n m) as [H _]. destruct (H i a Hl Ha) as [H1 H2].
+  destruct (mem_z (m_hbh m) (List.map fst (a_waiting a))) eqn:Ew.
+  - destruct (H1 eq_refl) as (n' & E & Hn & _). rewrite E in Hr. injection Hr as <- <-.
+    split; [left; reflexivity|]. apply (C10_correlation n' m), Hn.
+  - destruct (H2 eq_refl) as (n' & E & Hn & _). rewrite E in Hr. injection Hr as <- <-.
+    split; [right; reflexivity|]. apply (C10_correlation n' m), Hn.
+Qed.
+
+(* ================================================================================== *)
+(* 7. C12: Disconnect-Peer-Request                                                    *)
+(* ================================================================================== *)
+Lemma find_conn_peer_get n c p : find_conn_peer n c = Some p -> get_peer n (p_name p) = Some p.
+Proof.
+  unfold find_conn_peer. destruct (get_peer n (c_node_name c)) as [q|] eqn:E.
+  - intros H. injection H as <-. pose proof (get_peer_name _ _ _ E) as [-> _]. exact E.
+  - intros H. pose proof (get_peer_name _ _ _ H) as [-> _]. exact H.
+Qed.
+
+Lemma send_message_conns n cid m :
+  n_conns (fst (send_message n cid m)) = upd_conn (n_conns n) cid (fun c => set_cout c (c_out c ++ [m])%list)
+  /\ n_peers (fst (send_message n cid m)) = n_peers n.
+Proof.
+  unfold send_message, queue_out. cbn [fst]. destruct (o_req m); [split; reflexivity|].
+  unfold record_answer.
+  match goal with |- context [List.find ?f (n_origin_waiting ?x)] => destruct (List.find f (n_origin_waiting x)) as [[[a b] o]|] end;
+    destruct (get_conn n cid); split; reflexivity.
+Qed.
+
+(* C12: a DPR is answered with success on the same connection, the connection leaves the ready
+   states (so route_request no longer offers it), and its peer is marked as disconnected by DPR *)
+Theorem C12_dpr n cid m c n' outs :
+  get_conn n cid = Some c -> recv_dpr n cid m = (n', outs) ->
+  outs = [OQueue cid (answer_of m (Some 2001) [])] /\
+  (exists c', get_conn n' cid = Some c' /\ c_state c' = SDisconnecting /\ is_ready_state (c_state c') = false /\
+              c_host c' = c_host c /\ c_node_name c' = c_node_name c) /\
+  (forall p, find_conn_peer n c = Some p ->
+             exists p', get_peer n' (p_name p) = Some p' /\ p_reason p' = Some R_DPR /\ p_conn p' = p_conn p) /\
+  (find_conn_peer n c = None -> n_peers n' = n_peers n).
+Proof.
+  intros Hc Hr. unfold recv_dpr in Hr.
+  set (n1 := set_conns n (upd_conn (n_conns n) cid (fun c0 => set_cstate c0 SDisconnecting))) in Hr.
+  assert (Hc1 : get_conn n1 cid = Some (set_cstate c SDisconnecting)).
+  { unfold get_conn. cbn [n1 n_conns set_conns].
+    apply (find_upd_conn_same _ cid (fun c0 => set_cstate c0 SDisconnecting) c); [reflexivity|exact Hc]. }
+  rewrite Hc1 in Hr.
+  change (find_conn_peer n1 (set_cstate c SDisconnecting)) with (find_conn_peer n c) in Hr.
+  match type of Hr with send_message ?x _ _ = _ => set (n2 := x) in Hr end.
+  pose proof (send_message_out n2 cid (answer_of m (Some RC_SUCCESS) [])) as Ho.
+  pose proof (send_message_conns n2 cid (answer_of m (Some RC_SUCCESS) [])) as [Hcs Hps].
+  rewrite Hr in Ho, Hcs, Hps. cbn [fst snd] in Ho, Hcs, Hps.
+  assert (Hc2 : n_conns n2 = n_conns n1).
+  { subst n2. destruct (find_conn_peer n c); reflexivity. }
+  split; [exact Ho|]. split.
+  - eexists. split.
+    + unfold get_conn. rewrite Hcs, Hc2. apply find_upd_conn_same; [reflexivity|exact Hc1].
+    + repeat split.
+  - split.
+    + intros p Hp. unfold n2 in Hps. rewrite Hp in Hps. pose proof (find_conn_peer_get _ _ _ Hp) as Hg.
+      eexists. split.
+      * unfold get_peer. rewrite Hps. cbn [n1 n_peers set_peers set_conns]. apply find_upd_peer_same; [reflexivity|].
+        exact Hg.
+      * split; reflexivity.
+    + intros Hp. unfold n2 in Hps. rewrite Hp in Hps. rewrite Hps. reflexivity.
+Qed.
+
+(* ================================================================================== *)
+(* 8. every event: named copies of the local loops of `step`                          *)
+(* ================================================================================== *)
+Section Wake.
+Variable target : Z.
+Definition expire (n : node) : node :=
+  set_apps n (List.map (fun a => set_awaiting a (List.filter (fun w => target <? snd w) (a_waiting a))) (n_apps n)).
+Fixpoint wake (fuel : nat) (n : node) (ds : dials) (acc : list output) : node * list output :=
+  match fuel with
+  | O => (expire (set_time n target (n_io_deadline n)), acc)
+  | S f =>
+      if n_io_deadline n <=? target then
+        let n1 := set_time n (n_io_deadline n) (n_io_deadline n) in
+        let '(n2, o2, ds2) := settle n1 ds in
+        wake f n2 ds2 (acc ++ o2)%list
+      else (expire (set_time n target (n_io_deadline n)), acc)
+  end.
+End Wake.
+
+Fixpoint stop_go (cids0 : list nat) (n : node) (acc : list output) : node * list output :=
+  match cids0 with
+  | [] => (n, acc)
+  | c :: r => match get_conn n c with
+              | Some cn => if is_ready_state (c_state cn)
+                           then let '(n', o') := send_dpr n c in stop_go r n' (acc ++ o')%list
+                           else stop_go r n acc
+              | None => stop_go r n acc
+              end
+  end.
+
+Fixpoint finish_go (cids0 : list nat) (n : node) (acc : list output) : node * list output :=
+  match cids0 with
+  | [] => (n, acc)
+  | c :: r => let '(n', o') := close_conn n c R_SHUTDOWN in finish_go r n' (acc ++ o')%list
+  end.
+
+Fixpoint start_go (names : list String.string) (n : node) (ds : dials) (acc : list output) : node * list output * dials :=
+  match names with
+  | [] => (n, acc, ds)
+  | nm :: r =>
+      match get_peer n nm with
+      | Some p =>
+          if p_persistent p then
+            match ds with
+            | (h0, res) :: dr => let '(n1, o1) := connect_to_peer n nm h0 res in start_go r n1 dr (acc ++ o1)%list
+            | [] => let '(n1, o1) := connect_to_peer n nm 0 DialOk in start_go r n1 [] (acc ++ o1)%list
+            end
+          else start_go r n ds acc
+      | None => start_go r n ds acc
+      end
+  end.
+
+Lemma step_tick n ds dt : step n ds (ETick dt) = wake (n_now n + dt) (S (Z.to_nat dt)) n ds [].
+Proof. reflexivity. Qed.
+Lemma step_stop n ds force :
+  step n ds (EStop force) =
+  let n0 := set_misc n true (n_next_cid n) (n_e2e n) in
+  if force then (n0, [])
+  else let '(n1, o1) := stop_go (List.map c_id (n_conns n0)) n0 [] in
+       let '(n2, o2) := settle' n1 ds in (n2, (o1 ++ o2)%list).
+Proof. reflexivity. Qed.
+Lemma step_stop_finish n ds tclose tend :
+  step n ds (EStopFinish tclose tend) =
+  let n0 := set_time n tclose (n_io_deadline n) in
+  let '(n1, o1) := finish_go (List.map c_id (n_conns n0)) n0 [] in
+  (set_time (set_apps n1 (List.map (fun a => set_awaiting a []) (n_apps n1))) tend (n_io_deadline n1), o1).
+Proof. reflexivity. Qed.
+Lemma step_start n ds :
+  step n ds EStart =
+  let '(n1, o1, ds1) := start_go (List.map p_name (n_peers n)) n ds [] in
+  let '(n2, o2) := settle' n1 ds1 in (n2, (o1 ++ o2)%list).
+Proof. reflexivity. Qed.
+
+Lemma pmap_set_time n a b : pmap (set_time n a b) = pmap n.
+Proof. reflexivity. Qed.
+
+Lemma wake_g (P : output -> Prop) pm target fuel :
+  sysP P -> dialP pm P ->
+  forall n ds acc n0, pmap n = pm -> frame n0 n -> List.Forall P acc -> gres P n0 (wake target fuel n ds acc).
+Proof.
+  intros HP HD. induction fuel as [|f IH]; intros n ds acc n0 Hpm F Hacc; cbn [wake].
+  - split; [|exact Hacc]. eapply frame_trans; [exact F|]. apply frame_same; reflexivity.
+  - destruct (n_io_deadline n <=? target).
+    + cbv zeta. set (n1 := set_time n (n_io_deadline n) (n_io_deadline n)).
+      pose proof (settle_g P pm n1 ds HP HD Hpm) as G. destruct (settle n1 ds) as [[n2 o2] ds2]. cbn [fst] in G.
+      apply IH.
+      * rewrite <- Hpm. apply (gres_pmap _ _ _ G).
+      * eapply frame_trans; [exact F|]. eapply frame_trans; [|apply G]. apply frame_same; reflexivity.
+      * apply List.Forall_app. split; [exact Hacc|apply G].
+    + split; [|exact Hacc]. eapply frame_trans; [exact F|]. apply frame_same; reflexivity.
+Qed.
+
+Lemma send_dpr_g (P : output -> Prop) n cid : (forall c m, P (OQueue c m)) -> gres P n (send_dpr n cid).
+Proof.
+  intros HQ. unfold send_dpr. pose proof (own_request_frame n cid DP) as F.
+  destruct (own_request n cid DP) as [n1 m]. cbn [fst] in F.
+  eapply gres_pre; [exact F|]. eapply gres_pre; [|apply send_message_g, HQ].
+  apply frame_upd_conn. reflexivity.
+Qed.
+
+Lemma stop_go_g (P : output -> Prop) cids0 :
+  (forall c m, P (OQueue c m)) ->
+  forall n acc n0, frame n0 n -> List.Forall P acc -> gres P n0 (stop_go cids0 n acc).
+Proof.
+  intros HQ. induction cids0 as [|c r IH]; intros n acc n0 F Hacc; cbn [stop_go]; [split; assumption|].
+  destruct (get_conn n c) as [cn|]; [|apply IH; assumption].
+  destruct (is_ready_state (c_state cn)); [|apply IH; assumption].
+  pose proof (send_dpr_g P n c HQ) as G. destruct (send_dpr n c) as [n1 o1].
+  apply IH; [eapply frame_trans; [exact F|apply G]|]. apply List.Forall_app. split; [exact Hacc|apply G].
+Qed.
+
+Lemma finish_go_g (P : output -> Prop) cids0 :
+  (forall c r, P (OClose c r)) ->
+  forall n acc n0, frame n0 n -> List.Forall P acc -> gres P n0 (finish_go cids0 n acc).
+Proof.
+  intros HC. induction cids0 as [|c r IH]; intros n acc n0 F Hacc; cbn [finish_go]; [split; assumption|].
+  pose proof (close_conn_g P n c R_SHUTDOWN (HC _ _)) as G. destruct (close_conn n c R_SHUTDOWN) as [n1 o1].
+  apply IH; [eapply frame_trans; [exact F|apply G]|]. apply List.Forall_app. split; [exact Hacc|apply G].
+Qed.
+
+Lemma start_go_g (P : output -> Prop) pm names :
+  sysP P -> dialP pm P ->
+  forall n ds acc n0, pmap n = pm -> frame n0 n -> List.Forall P acc -> gres P n0 (fst (start_go names n ds acc)).
+Proof.
+  intros HP HD. induction names as [|nm r IH]; intros n ds acc n0 Hpm F Hacc; cbn [start_go]; [split; assumption|].
+  destruct (get_peer n nm) as [p|] eqn:Ep; [|apply IH; assumption].
+  destruct (p_persistent p) eqn:Epers; [|apply IH; assumption].
+  assert (Hpers : forall p0, get_peer n nm = Some p0 -> p_persistent p0 = true).
+  { intros p0 E0. rewrite Ep in E0. injection E0 as <-. exact Epers. }
+  destruct ds as [|[h0 res] dr].
+  - pose proof (connect_to_peer_g P pm n nm 0 DialOk HP HD Hpm Hpers) as G.
+    destruct (connect_to_peer n nm 0 DialOk) as [n1 o1]. apply IH.
+    + rewrite <- Hpm. apply (gres_pmap _ _ _ G).
+    + eapply frame_trans; [exact F|apply G].
+    + apply List.Forall_app. split; [exact Hacc|apply G].
+  - pose proof (connect_to_peer_g P pm n nm h0 res HP HD Hpm Hpers) as G.
+    destruct (connect_to_peer n nm h0 res) as [n1 o1]. apply IH.
+    + rewrite <- Hpm. apply (gres_pmap _ _ _ G).
+    + eapply frame_trans; [exact F|apply G].
+    + apply List.Forall_app. split; [exact Hacc|apply G].
+Qed.
+
+(* ---- the reader thread: handlers of received messages -------------------------------- *)
+Lemma recv_cer_g n cid m : gres nodial n (recv_cer n cid m).
+Proof.
+  unfold recv_cer. destruct (pres_get (m_origin m)) as [host|]; [|apply gres_refl].
+  destruct (get_peer n host) as [p|].
+  - cbv zeta.
+    set (n1 := set_conns n (upd_conn (n_conns n) cid (fun c =>
+                  if String.eqb (c_node_name c) String.EmptyString then set_cident c host (c_host c) (c_auth c) (c_acct c) else c))).
+    assert (F1 : frame n n1).
+    { apply frame_upd_conn. intros c. destruct (String.eqb (c_node_name c) String.EmptyString); reflexivity. }
+    assert (A : gres nodial n (send_message n1 cid (answer_of m (Some RC_NO_COMMON_APP) []))).
+    { eapply gres_pre; [exact F1|]. apply send_message_g. exact I. }
+    match goal with |- context [flag_ready ?x cid] => set (n3 := flag_ready x cid) end.
+    assert (B : gres nodial n (send_message n3 cid (answer_of m (Some RC_SUCCESS) []))).
+    { eapply gres_pre; [|apply send_message_g; exact I].
+      eapply frame_trans; [exact F1|]. unfold n3.
+      eapply frame_trans; [|apply flag_ready_frame]. eapply frame_trans; [|apply assign_peer_conn_frame].
+      apply frame_upd_conn. reflexivity. }
+    clearbody n3.
+    destruct (inter_z (node_auth n1) (m_auth m)); [|exact B].
+    destruct (inter_z (node_acct n1) (m_acct m)); [|exact B].
+    destruct (mem_z APP_RELAY (m_auth m) || mem_z APP_RELAY (m_acct m)); [exact B|exact A].
+  - eapply gres_pre; [|apply send_message_g; exact I]. apply frame_upd_conn. reflexivity.
+Qed.
+
+Lemma recv_cea_g n cid m : gres nodial n (recv_cea n cid m).
+Proof.
+  unfold recv_cea.
+  assert (B : gres nodial n (close_conn n cid R_CER_REJECTED)) by (apply close_conn_g; exact I).
+  match goal with |- context [match pres_get (m_origin m) with Some _ => _ | None => ?y end] =>
+    assert (A : gres nodial n (match pres_get (m_origin m) with
+                               | Some host =>
+                                   (flag_ready (assign_peer_conn
+                                      (set_conns (fst y) (upd_conn (n_conns (fst y)) cid (fun c => set_cident c (c_node_name c) host (c_auth c) (c_acct c)))) cid) cid, [])
+                               | None => y end)) end.
+  { destruct (pres_get (m_origin m)) as [host|]; cbn [fst].
+    - apply gres_nil. eapply frame_trans; [|apply flag_ready_frame]. eapply frame_trans; [|apply assign_peer_conn_frame].
+      eapply frame_trans; [apply (frame_upd_conn n cid (fun c => set_cident c (c_node_name c) (c_host c) (inter_z (node_auth n) (m_auth m)) (inter_z (node_acct n) (m_acct m)))); reflexivity|].
+      apply frame_upd_conn. reflexivity.
+    - apply gres_nil. apply frame_upd_conn. reflexivity. }
+  destruct (m_result m) as [| |z]; try exact B.
+  destruct z as [|p|p]; try exact B.
+  do 11 (destruct p as [p|p|]; try exact B). exact A.
+Qed.
+
+Lemma recv_dpr_g n cid m : gres nodial n (recv_dpr n cid m).
+Proof.
+  unfold recv_dpr. eapply gres_pre; [|apply send_message_g; exact I].
+  set (n1 := set_conns n (upd_conn (n_conns n) cid (fun c => set_cstate c SDisconnecting))).
+  assert (F1 : frame n n1) by (apply frame_upd_conn; reflexivity).
+  eapply frame_trans; [exact F1|]. clearbody n1.
+  destruct (get_conn n1 cid) as [c|]; [|apply frame_refl].
+  destruct (find_conn_peer n1 c) as [p|]; [|apply frame_refl].
+  apply frame_upd_peer. reflexivity.
+Qed.
+
+Lemma recv_dpa_g n cid : gres nodial n (recv_dpa n cid).
+Proof.
+  unfold recv_dpa. set (n1 := set_conns n (upd_conn (n_conns n) cid (fun c => set_cstate c SClosing))).
+  assert (F1 : frame n n1) by (apply frame_upd_conn; reflexivity). clearbody n1.
+  destruct (get_conn n1 cid) as [c|]; [|apply gres_nil, F1].
+  destruct (c_out c); [|apply gres_nil, F1].
+  eapply gres_pre; [exact F1|]. apply close_conn_g. exact I.
+Qed.
+
+Lemma recv_app_answer_g n m : gres nodial n (recv_app_answer n m).
+Proof.
+  unfold recv_app_answer. destruct (List.find _ (n_app_waiting n)) as [[[h e] i]|]; [|apply gres_refl].
+  destruct (List.nth_error (n_apps n) i) as [a|]; [|apply gres_refl].
+  destruct (mem_z (m_hbh m) (List.map fst (a_waiting a))).
+  - split; [apply frame_same; reflexivity|]. constructor; [exact I|constructor].
+  - split; [apply frame_same; reflexivity|]. constructor; [exact I|constructor].
+Qed.
+
+Lemma zz_eq (k k0 : Z * Z) : (fst k =? fst k0) && (snd k =? snd k0) = true -> k = k0.
+Proof.
+  destruct k, k0. cbn [fst snd]. intros H. apply andb_true_iff in H. destruct H as [H1 H2].
+  apply Z.eqb_eq in H1. apply Z.eqb_eq in H2. congruence.
+Qed.
+
+Lemma pw_has_add pw host k0 h k : pw_has (pw_add pw host k0) h k -> pw_has pw h k \/ (h = host /\ k = k0).
+Proof.
+  unfold pw_add, pw_has. intros [l [Hin Hm]].
+  destruct (List.existsb (fun e => String.eqb (fst e) host) pw).
+  - apply List.in_map_iff in Hin. destruct Hin as [[h1 l1] [E Hin]]. cbn [fst snd] in E.
+    destruct (String.eqb h1 host) eqn:Eh.
+    + apply String.eqb_eq in Eh. destruct (mem_zz k0 l1) eqn:Em.
+      * injection E as <- <-. left. exists l1. split; assumption.
+      * injection E as <- <-. unfold mem_zz in Hm. rewrite List.existsb_app in Hm. apply orb_true_iff in Hm.
+        destruct Hm as [Hm|Hm]; [left; exists l1; split; assumption|].
+        cbn [List.existsb] in Hm. rewrite orb_false_r in Hm. right. split; [exact Eh|apply zz_eq, Hm].
+    + injection E as <- <-. left. exists l1. split; assumption.
+  - apply List.in_app_or in Hin. destruct Hin as [Hin|[E|[]]]; [left; exists l; split; assumption|].
+    injection E as <- <-. unfold mem_zz in Hm. cbn [List.existsb] in Hm. rewrite orb_false_r in Hm.
+    right. split; [reflexivity|apply zz_eq, Hm].
+Qed.
+
+(* result of the reader thread for the frames ms: the peer table and the connection counter are
+   framed, nothing is dialled, and a new waiting pair comes with a delivery of one of the frames *)
+Definition dres (ms : list msg) (n : node) (r : node * list output) : Prop :=
+  frame0 n (fst r) /\ List.Forall nodial (snd r) /\
+  forall h k, pw_has (n_peer_waiting (fst r)) h k ->
+     pw_has (n_peer_waiting n) h k \/
+     exists i m, List.In m ms /\ List.In (ODeliver i m) (snd r) /\ k = (m_hbh m, m_e2e m).
+
+Lemma dres_of_gres ms n r : gres nodial n r -> dres ms n r.
+Proof. intros [[F0 Fw] Ho]. split; [exact F0|]. split; [exact Ho|]. intros h k H. left. apply Fw, H. Qed.
+
+Lemma dres_pre ms n n0 r : frame n n0 -> dres ms n0 r -> dres ms n r.
+Proof.
+  intros [F0 Fw] (D0 & Do & Dw). split; [eapply frame0_trans; eassumption|]. split; [exact Do|].
+  intros h k H. destruct (Dw h k H) as [H'|H']; [left; apply Fw, H'|right; exact H'].
+Qed.
+
+Lemma dres_app ms1 ms2 n n1 o1 n2 o2 :
+  dres ms1 n (n1, o1) -> dres ms2 n1 (n2, o2) -> dres (ms1 ++ ms2)%list n (n2, (o1 ++ o2)%list).
+Proof.
+  intros (A0 & Ao & Aw) (B0 & Bo & Bw). cbn [fst snd] in *. split; [eapply frame0_trans; eassumption|].
+  split; [apply List.Forall_app; split; assumption|]. cbn [fst snd].
+  intros h k H. destruct (Bw h k H) as [H'|(i & m & Hm & Hd & Hk)].
+  - destruct (Aw h k H') as [H''|(i & m & Hm & Hd & Hk)]; [left; exact H''|].
+    right. exists i, m. split; [apply List.in_or_app; left; exact Hm|]. split; [apply List.in_or_app; left; exact Hd|exact Hk].
+  - right. exists i, m. split; [apply List.in_or_app; right; exact Hm|]. split; [apply List.in_or_app; right; exact Hd|exact Hk].
+Qed.
+
+(* C09: a pair enters a host's waiting list only when a request carrying it is delivered on a
+   connection whose host identity is that host *)
+Theorem C09_entry_host n cid m n' outs h k :
+  recv_app_request n cid m = (n', outs) ->
+  ~ pw_has (n_peer_waiting n) h k -> pw_has (n_peer_waiting n') h k ->
+  exists c i, get_conn n cid = Some c /\ c_host c = h /\ outs = [ODeliver i m] /\ k = (m_hbh m, m_e2e m).
+Proof.
+  unfold recv_app_request. intros Hr Hno Hyes.
+  assert (S : forall r, send_message n cid r = (n', outs) -> False).
+  { intros r E. pose proof (send_message_frame n cid r) as [_ F]. rewrite E in F. exact (Hno (F _ _ Hyes)). }
+  destruct (get_conn n cid) as [c|]; [|injection Hr as <- <-; contradiction].
+  destruct (m_drealm m) as [| |realm]; try (exfalso; eapply S; eassumption).
+  destruct (route_lookup n realm) as [entries|]; [|exfalso; eapply S; eassumption].
+  destruct (List.find _ entries) as [[[i|] l]|]; try (exfalso; eapply S; eassumption).
+  injection Hr as <- <-. cbn [n_peer_waiting set_waiting] in Hyes.
+  apply pw_has_add in Hyes. destruct Hyes as [Hyes|[-> ->]]; [contradiction|].
+  exists c, i. repeat split.
+Qed.
+
+Lemma recv_app_request_d n cid m : dres [m] n (recv_app_request n cid m).
+Proof.
+  unfold recv_app_request.
+  assert (S : forall r, dres [m] n (send_message n cid r)).
+  { intros r. apply dres_of_gres, send_message_g. exact I. }
+  destruct (get_conn n cid) as [c|]; [|apply dres_of_gres, gres_refl].
+  destruct (m_drealm m) as [| |realm]; try apply S.
+  destruct (route_lookup n realm) as [entries|]; [|apply S].
+  destruct (List.find _ entries) as [[[i|] l]|]; try apply S.
+  split; [apply frame0_same; reflexivity|]. split; [constructor; [exact I|constructor]|].
+  cbn [fst snd n_peer_waiting set_waiting]. intros h k H. apply pw_has_add in H.
+  destruct H as [H|[_ ->]]; [left; exact H|]. right. exists i, m. split; [left; reflexivity|].
+  split; [left; reflexivity|reflexivity].
+Qed.
+
+Lemma receive_message_d n cid m : dres [m] n (receive_message n cid m).
+Proof.
+  unfold receive_message. cbv zeta.
+  match goal with |- context [g_validate (n_cfg ?x)] => set (n0 := x) end.
+  assert (F0 : frame n n0).
+  { unfold n0. destruct (m_origin m); [apply frame_refl| |]; (destruct (m_req m); [apply frame_same; reflexivity|apply frame_refl]). }
+  clearbody n0. apply (dres_pre _ _ _ _ F0).
+  assert (S : forall r, dres [m] n0 (send_message n0 cid r)).
+  { intros r. apply dres_of_gres, send_message_g. exact I. }
+  destruct (if m_req m && g_validate (n_cfg n0) then m_missing m else []); [|apply S].
+  match goal with |- context [if ?b then send_message _ _ _ else _] => destruct b end; [apply S|].
+  destruct (m_req m), (m_cmd m).
+  - destruct (m_origin m); [apply S|apply S|]. apply dres_of_gres, recv_cer_g.
+  - apply dres_of_gres. unfold recv_dwr. apply send_message_g. exact I.
+  - apply dres_of_gres, recv_dpr_g.
+  - apply recv_app_request_d.
+  - apply dres_of_gres, recv_cea_g.
+  - apply dres_of_gres. unfold recv_dwa. apply gres_nil. apply frame_upd_conn.
+    intros c. destruct (cstate_eqb (c_state c) SReadyWaitDwa); reflexivity.
+  - apply dres_of_gres, recv_dpa_g.
+  - apply dres_of_gres, recv_app_answer_g.
+Qed.
+
+Lemma dispatch_all_d cid ms : forall n, dres ms n (dispatch_all n cid ms).
+Proof.
+  induction ms as [|m r IH]; intros n; cbn [dispatch_all]; [apply dres_of_gres, gres_refl|].
+  assert (D : dres [m] n (dispatch n cid m)).
+  { unfold dispatch. destruct (get_conn n cid) as [c|]; [|apply dres_of_gres, gres_refl].
+    destruct (gate_passes c m); [apply receive_message_d|apply dres_of_gres, gres_refl]. }
+  destruct (dispatch n cid m) as [n1 o1]. pose proof (IH n1) as D2. destruct (dispatch_all n1 cid r) as [n2 o2].
+  change (m :: r) with ([m] ++ r)%list. eapply dres_app; eassumption.
+Qed.
+
+(* ================================================================================== *)
+(* 9. every event                                                                     *)
+(* ================================================================================== *)
+Lemma frame_next n n' :
+  n_peers n' = n_peers n -> n_peer_waiting n' = n_peer_waiting n -> n_next_cid n' = S (n_next_cid n) ->
+  (n_conns n' = n_conns n \/ exists c, n_conns n' = (n_conns n ++ [c])%list /\ c_id c = n_next_cid n) ->
+  frame n n'.
+Proof.
+  intros Hp Hw Hn Hc. split; [split|].
+  - unfold pmap. rewrite Hp. reflexivity.
+  - split; [lia|]. intros i Hi. destruct Hc as [Hc|[c [Hc Hid]]]; rewrite Hc in Hi; [left; exact Hi|].
+    rewrite List.map_app in Hi. apply List.in_app_or in Hi. destruct Hi as [Hi|[<-|[]]]; [left; exact Hi|right; lia].
+  - intros h k H. rewrite Hw in H. exact H.
+Qed.
+
+Lemma then_settle (P : output -> Prop) pm n n1 o1 ds :
+  sysP P -> dialP pm P -> pmap n = pm -> gres P n (n1, o1) ->
+  gres P n (let '(n2, o2) := settle' n1 ds in (n2, (o1 ++ o2)%list)).
+Proof.
+  intros HP HD Hpm G.
+  assert (Hpm1 : pmap n1 = pm). { rewrite <- Hpm. apply (gres_pmap _ _ _ G). }
+  pose proof (settle'_g P pm n1 ds HP HD Hpm1) as G2. destruct (settle' n1 ds) as [n2 o2].
+  eapply gres_app; eassumption.
+Qed.
+
+Lemma step_other_g n ds e :
+  (forall cid ms, e <> ERecv cid ms) -> gres (dialok (pmap n)) n (step n ds e).
+Proof.
+  intros Hne. set (pm := pmap n). set (P := dialok pm).
+  assert (HP : sysP P) by apply sysP_dialok. assert (HD : dialP pm P) by apply dialP_dialok.
+  assert (Hpm : pmap n = pm) by reflexivity. clearbody pm.
+  pose proof HP as [HQ [HC HS]].
+  destruct e as [hbh0|cid ms|cid|cid hard|cid ok|cid b|dt|i m|i m realm pick timeout|force|tclose tend|].
+  - (* EAccept *)
+    cbn [step]. destruct (n_stopping n).
+    + split; [|constructor; [exact I|constructor]]. apply frame_next; try reflexivity. left. reflexivity.
+    + cbv zeta. match goal with |- context [settle' ?x ds] => set (n2 := x) end.
+      assert (F : frame n n2).
+      { apply frame_next; try reflexivity. right. eexists. split; reflexivity. }
+      eapply gres_pre; [exact F|]. apply (settle'_g P pm); auto.
+  - exfalso. eapply Hne. reflexivity.
+  - (* EPeerClose *)
+    cbn [step]. pose proof (close_conn_g P n cid R_GONE (HC _ _)) as G. destruct (close_conn n cid R_GONE) as [n1 o1].
+    apply (then_settle P pm); auto.
+  - (* EReadErr *)
+    cbn [step].
+    assert (G : gres P n (if hard then close_conn n cid R_SOCKET_FAIL else (n, []))).
+    { destruct hard; [apply close_conn_g, HC|apply gres_refl]. }
+    destruct (if hard then close_conn n cid R_SOCKET_FAIL else (n, [])) as [n1 o1].
+    apply (then_settle P pm); auto.
+  - (* EConnDone *)
+    cbn [step]. destruct (get_conn n cid) as [c|]; [|apply gres_refl].
+    destruct (cstate_eqb (c_state c) SConnecting); [|apply gres_refl].
+    destruct ok.
+    + cbv zeta. match goal with |- context [send_cer ?x cid] => set (n2 := x) end.
+      assert (F : frame n n2).
+      { unfold n2. eapply frame_trans; [apply (frame_upd_conn n cid (fun c0 => set_cstate c0 SConnected)); reflexivity|].
+        match goal with |- context [find_conn_peer ?a ?b] => destruct (find_conn_peer a b) as [p|] end; [|apply frame_refl].
+        apply frame_upd_peer. reflexivity. }
+      clearbody n2.
+      pose proof (send_cer_g P n2 cid HP) as G3. destruct (send_cer n2 cid) as [n3 o3].
+      assert (G3' : gres P n (n3, o3)) by (eapply gres_pre; eassumption).
+      assert (Hpm3 : pmap n3 = pm). { rewrite <- Hpm. apply (gres_pmap _ _ _ G3'). }
+      pose proof (io_iteration_g P pm n3 ds HP HD Hpm3) as G4. destruct (io_iteration n3 ds) as [[n4 o4] ds4].
+      cbn [fst] in G4.
+      assert (G4' : gres P n (n4, (o3 ++ o4)%list)) by (eapply gres_app; eassumption).
+      pose proof (then_settle P pm n n4 (o3 ++ o4)%list ds4 HP HD Hpm G4') as G5.
+      destruct (settle' n4 ds4) as [n5 o5]. rewrite <- List.app_assoc in G5. exact G5.
+    + pose proof (close_conn_g P n cid R_FAILED_CONNECT (HC _ _)) as G.
+      destruct (close_conn n cid R_FAILED_CONNECT) as [n1 o1]. apply (then_settle P pm); auto.
+  - (* EStall *)
+    cbn [step]. destruct (get_conn n cid) as [c|]; [|apply gres_refl].
+    cbv zeta. set (n1 := set_conns n (upd_conn (n_conns n) cid (fun c0 => set_csock c0 (c_sock_open c0) b (c_workers c0)))).
+    assert (F : frame n n1) by (apply frame_upd_conn; reflexivity).
+    destruct b; [apply gres_nil, F|]. destruct (c_out c); [apply gres_nil, F|].
+    eapply gres_pre; [exact F|]. apply (settle'_g P pm); auto.
+  - (* ETick *)
+    rewrite step_tick. apply (wake_g P pm); auto; try apply frame_refl; try constructor.
+  - (* EAppAnswer *)
+    cbn [step]. pose proof (route_answer_frame n m) as F. destruct (route_answer n m) as [[cid|] n1]; cbn [snd] in F.
+    + pose proof (send_message_g P n1 cid m I) as G. destruct (send_message n1 cid m) as [n2 o2].
+      apply (then_settle P pm); auto. eapply gres_pre; eassumption.
+    + split; [exact F|constructor; [exact I|constructor]].
+  - (* EAppRequest *)
+    rewrite step_app_request. destruct (req_core _ _ ds i m realm pick timeout) as [n' outs] eqn:E.
+    assert (F0 : frame n (fst (e2e_prep n m))).
+    { unfold e2e_prep. destruct (o_e2e m =? 0); [apply frame_same; reflexivity|apply frame_refl]. }
+    apply req_core_shape in E. destruct E as [[-> ->]|E].
+    + split; [exact F0|constructor; [exact I|constructor]].
+    + destruct E as (usable & p & cid & c & m' & n4 & rest & _ & _ & _ & _ & _ & -> & Hs & Hrest & H9 & _ & _ & _ & _ & _ & _ & _ & F4).
+      pose proof (settle'_sys n4 ds) as [F5 _]. rewrite Hs in F5. cbn [fst] in F5.
+      split; [eapply frame_trans; [exact F0|]; eapply frame_trans; eassumption|].
+      cbn [snd]. constructor; [exact I|].
+      assert (E : pmap (fst (e2e_prep n m)) = pm). { rewrite <- Hpm. apply F0. }
+      rewrite E in Hrest. eapply List.Forall_impl; [|exact Hrest]. apply sysout_dialok.
+  - (* EStop *)
+    rewrite step_stop. cbv zeta. set (n0 := set_misc n true (n_next_cid n) (n_e2e n)).
+    assert (F : frame n n0) by (apply frame_same; reflexivity).
+    destruct force; [apply gres_nil, F|].
+    pose proof (stop_go_g P (List.map c_id (n_conns n0)) (fun _ _ => I) n0 [] n F (List.Forall_nil _)) as G.
+    destruct (stop_go (List.map c_id (n_conns n0)) n0 []) as [n1 o1]. apply (then_settle P pm); auto.
+  - (* EStopFinish *)
+    rewrite step_stop_finish. cbv zeta. set (n0 := set_time n tclose (n_io_deadline n)).
+    assert (F : frame n n0) by (apply frame_same; reflexivity).
+    pose proof (finish_go_g P (List.map c_id (n_conns n0)) HC n0 [] n F (List.Forall_nil _)) as G.
+    destruct (finish_go (List.map c_id (n_conns n0)) n0 []) as [n1 o1].
+    eapply gres_post; [exact G|]. apply frame_same; reflexivity.
+  - (* EStart *)
+    rewrite step_start.
+    pose proof (start_go_g P pm (List.map p_name (n_peers n)) HP HD n ds [] n Hpm (frame_refl n) (List.Forall_nil _)) as G.
+    destruct (start_go (List.map p_name (n_peers n)) n ds []) as [[n1 o1] ds1]. cbn [fst] in G.
+    apply (then_settle P pm); auto.
+Qed.
+
+Lemma step_recv_d n ds cid ms c0 :
+  get_conn n cid = Some c0 ->
+  frame0 n (fst (step n ds (ERecv cid ms))) /\
+  List.Forall (dialok (pmap n)) (snd (step n ds (ERecv cid ms))) /\
+  forall h k, pw_has (n_peer_waiting (fst (step n ds (ERecv cid ms)))) h k ->
+     pw_has (n_peer_waiting n) h k \/
+     exists i m, List.In m ms /\ List.In (ODeliver i m) (snd (step n ds (ERecv cid ms))) /\ k = (m_hbh m, m_e2e m).
+Proof.
+  intros Hc. cbn [step]. rewrite Hc.
+  set (pm := pmap n). set (P := dialok pm).
+  assert (HP : sysP P) by apply sysP_dialok. assert (HD : dialP pm P) by apply dialP_dialok.
+  assert (Hpm : pmap n = pm) by reflexivity. clearbody pm.
+  pose proof (io_iteration_g P pm n ds HP HD Hpm) as G1. destruct (io_iteration n ds) as [[n1 o1] ds1]. cbn [fst] in G1.
+  assert (F2 : frame n1 (upd_last_read n1 cid)) by (apply frame_upd_conn; reflexivity).
+  pose proof (dispatch_all_d cid ms (upd_last_read n1 cid)) as D. destruct (dispatch_all (upd_last_read n1 cid) cid ms) as [n3 o3].
+  destruct G1 as [[F1 W1] O1]. destruct F2 as [F2 W2]. destruct D as (F3 & O3 & W3). cbn [fst snd] in *.
+  assert (F13 : frame0 n n3) by (eapply frame0_trans; [exact F1|]; eapply frame0_trans; eassumption).
+  assert (Hpm3 : pmap n3 = pm). { rewrite <- Hpm. apply F13. }
+  pose proof (settle'_g P pm n3 ds1 HP HD Hpm3) as G4. destruct (settle' n3 ds1) as [n4 o4].
+  destruct G4 as [[F4 W4] O4]. cbn [fst snd] in *.
+  split; [eapply frame0_trans; eassumption|]. split.
+  - apply List.Forall_app. split; [exact O1|]. apply List.Forall_app. split; [|exact O4].
+    eapply List.Forall_impl; [|exact O3]. apply nodial_dialok.
+  - intros h k H. apply W4 in H. destruct (W3 h k H) as [H'|(i & m & Hm & Hd & Hk)].
+    + left. apply W1, W2, H'.
+    + right. exists i, m. split; [exact Hm|]. split; [|exact Hk].
+      apply List.in_or_app. right. apply List.in_or_app. left. exact Hd.
+Qed.
+
+Lemma event_cases e : (exists cid ms, e = ERecv cid ms) \/ (forall cid ms, e <> ERecv cid ms).
+Proof. destruct e; try (right; intros; discriminate). left. eauto. Qed.
+
+(* what every event leaves alone *)
+Theorem step_inv n ds e n' outs :
+  step n ds e = (n', outs) ->
+  frame0 n n' /\ List.Forall (dialok (pmap n)) outs /\
+  forall h k, pw_has (n_peer_waiting n') h k ->
+    pw_has (n_peer_waiting n) h k \/
+    exists cid ms c0 i m, e = ERecv cid ms /\ get_conn n cid = Some c0 /\ List.In m ms /\
+                          List.In (ODeliver i m) outs /\ k = (m_hbh m, m_e2e m).
+Proof.
+  intros Hs. destruct (event_cases e) as [(cid & ms & ->)|Hne].
+  - destruct (get_conn n cid) as [c0|] eqn:Hc.
+    + pose proof (step_recv_d n ds cid ms c0 Hc) as (F & O & W). rewrite Hs in F, O, W. cbn [fst snd] in *.
+      split; [exact F|]. split; [exact O|]. intros h k H. destruct (W h k H) as [H'|(i & m & Hm & Hd & Hk)]; [left; exact H'|].
+      right. exists cid, ms, c0, i, m. repeat split; assumption.
+    + cbn [step] in Hs. rewrite Hc in Hs. injection Hs as <- <-.
+      split; [apply frame0_refl|]. split; [constructor|]. intros h k H. left. exact H.
+  - pose proof (step_other_g n ds e Hne) as [[F W] O]. rewrite Hs in F, W, O. cbn [fst snd] in *.
+    split; [exact F|]. split; [exact O|]. intros h k H. left. apply W, H.
+Qed.
+
+(* C09: waiting entries only come from delivered requests *)
+Theorem C09_entry_from_delivery n ds e n' outs h hbh e2e :
+  step n ds e = (n', outs) ->
+  ~ pw_has (n_peer_waiting n) h (hbh, e2e) -> pw_has (n_peer_waiting n') h (hbh, e2e) ->
+  exists cid ms c0 i m,
+    e = ERecv cid ms /\ get_conn n cid = Some c0 /\ List.In m ms /\ List.In (ODeliver i m) outs /\
+    m_hbh m = hbh /\ m_e2e m = e2e.
+Proof.
+  intros Hs Hno Hyes. destruct (step_inv _ _ _ _ _ Hs) as (_ & _ & W).
+  destruct (W _ _ Hyes) as [H|(cid & ms & c0 & i & m & He & Hc & Hm & Hd & Hk)]; [contradiction|].
+  exists cid, ms, c0, i, m. injection Hk as -> ->. repeat split; assumption.
+Qed.
+
+Lemma pmap_get_peer n n' nm p :
+  pmap n' = pmap n -> get_peer n nm = Some p ->
+  exists p', get_peer n' nm = Some p' /\ p_persistent p' = p_persistent p /\ p_name p' = p_name p.
+Proof.
+  unfold pmap, get_peer. generalize (n_peers n') as l'. induction (n_peers n) as [|a l IH]; intros l' E H; [discriminate|].
+  destruct l' as [|a' l']; [discriminate|]. cbn [List.map] in E. injection E as E1 E2 E3. cbn [List.find] in *.
+  rewrite E1. destruct (String.eqb (p_name a) nm).
+  - injection H as <-. exists a'. repeat split; assumption.
+  - apply IH; assumption.
+Qed.
+
+(* C12: the names and the persistence flags of the configured peers never change *)
+Theorem persistent_stable n ds e n' outs :
+  step n ds e = (n', outs) ->
+  List.map (fun p => (p_name p, p_persistent p)) (n_peers n') = List.map (fun p => (p_name p, p_persistent p)) (n_peers n) /\
+  forall nm p, get_peer n nm = Some p ->
+               exists p', get_peer n' nm = Some p' /\ p_persistent p' = p_persistent p.
+Proof.
+  intros Hs. destruct (step_inv _ _ _ _ _ Hs) as ([E _] & _ & _). split; [exact E|].
+  intros nm p Hp. destruct (pmap_get_peer _ _ _ _ E Hp) as (p' & H1 & H2 & _). exists p'. split; assumption.
+Qed.
+
+(* C12: only persistent peers are ever dialled, whatever the event *)
+Theorem C12_never_nonpersistent n ds e n' outs nm :
+  step n ds e = (n', outs) -> List.In (ODial nm) outs ->
+  exists p, get_peer n nm = Some p /\ p_persistent p = true.
+Proof.
+  intros Hs Hin. destruct (step_inv _ _ _ _ _ Hs) as (_ & O & _).
+  rewrite List.Forall_forall in O. apply O in Hin. cbn [dialok] in Hin. rewrite pers_in_pmap in Hin.
+  destruct (get_peer n nm) as [p|]; [|discriminate]. exists p. split; [reflexivity|exact Hin].
+Qed.
+
+(* connection ids are below the connection counter: an invariant of every event *)
+Definition cid_fresh (n : node) : Prop := forall c, List.In c (n_conns n) -> (c_id c < n_next_cid n)%nat.
+
+Lemma cids_fresh n n' : cids n n' -> cid_fresh n -> cid_fresh n'.
+Proof.
+  intros [H1 H2] Hf c Hc. destruct (H2 (c_id c) (List.in_map c_id _ _ Hc)) as [H|H]; [|lia].
+  apply List.in_map_iff in H. destruct H as [c1 [E Hc1]]. apply Hf in Hc1. lia.
+Qed.
+
+Theorem cid_fresh_step n ds e n' outs : step n ds e = (n', outs) -> cid_fresh n -> cid_fresh n'.
+Proof. intros Hs. destruct (step_inv _ _ _ _ _ Hs) as ([_ C] & _ & _). apply cids_fresh, C. Qed.
+
+(* ================================================================================== *)
+(* 10. C12: who is dialled at a wake-up                                               *)
+(* ================================================================================== *)
+Lemma connect_to_peer_frame n nm h res : frame n (fst (connect_to_peer n nm h res)).
+Proof.
+  apply (connect_to_peer_g0 (fun _ => True)); [|intros; exact I].
+  split; [intros; exact I|]. split; intros; exact I.
+Qed.
+
+Lemma send_message_keeps n cid m :
+  n_peers (fst (send_message n cid m)) = n_peers n /\
+  n_stopping (fst (send_message n cid m)) = n_stopping n /\ n_now (fst (send_message n cid m)) = n_now n.
+Proof.
+  unfold send_message, queue_out. cbn [fst]. destruct (o_req m); [repeat split; reflexivity|].
+  unfold record_answer.
+  match goal with |- context [List.find ?f (n_origin_waiting ?x)] => destruct (List.find f (n_origin_waiting x)) as [[[a b] o]|] end;
+    destruct (get_conn n cid); repeat split; reflexivity.
+Qed.
+
+Lemma own_request_keeps n cid c :
+  n_peers (fst (own_request n cid c)) = n_peers n /\
+  n_stopping (fst (own_request n cid c)) = n_stopping n /\ n_now (fst (own_request n cid c)) = n_now n.
+Proof. unfold own_request. destruct (get_conn n cid); repeat split; reflexivity. Qed.
+
+Lemma send_cer_keeps n cid :
+  n_peers (fst (send_cer n cid)) = n_peers n /\
+  n_stopping (fst (send_cer n cid)) = n_stopping n /\ n_now (fst (send_cer n cid)) = n_now n.
+Proof.
+  unfold send_cer. pose proof (own_request_keeps n cid CE) as (A1 & A2 & A3).
+  destruct (own_request n cid CE) as [n1 m]. cbn [fst] in *.
+  pose proof (send_message_keeps n1 cid m) as (B1 & B2 & B3). repeat split; congruence.
+Qed.
+
+Lemma send_cer_out n cid : exists m, snd (send_cer n cid) = [OQueue cid m].
+Proof.
+  unfold send_cer. destruct (own_request n cid CE) as [n1 m]. exists m. apply send_message_out.
+Qed.
+
+Lemma remove_conn_keeps n cid r :
+  n_stopping (remove_conn n cid r) = n_stopping n /\ n_now (remove_conn n cid r) = n_now n.
+Proof.
+  unfold remove_conn. destruct (get_conn n cid) as [c|]; [|split; reflexivity].
+  cbn [n_stopping n_now set_apps set_tables set_waiting].
+  destruct (find_conn_peer n c) as [p|]; [destruct (p_conn p) as [k|]; [destruct (Nat.eqb k cid)|]|]; split; reflexivity.
+Qed.
+
+Lemma remove_conn_peer_other n cid r c nm' :
+  get_conn n cid = Some c -> (forall p, find_conn_peer n c = Some p -> p_name p <> nm') ->
+  get_peer (remove_conn n cid r) nm' = get_peer n nm'.
+Proof.
+  intros Hc Hp. unfold remove_conn. rewrite Hc. unfold get_peer. cbn [n_peers set_apps set_tables set_waiting].
+  destruct (find_conn_peer n c) as [p|]; [|reflexivity].
+  destruct (p_conn p) as [k|]; [|reflexivity]. destruct (Nat.eqb k cid); [|reflexivity].
+  cbn [n_peers set_peers set_conns]. apply find_upd_peer_other; [reflexivity|]. apply Hp. reflexivity.
+Qed.
+
+Lemma fresh_find_none n : cid_fresh n -> List.find (by_cid (n_next_cid n)) (n_conns n) = None.
+Proof.
+  intros Hf. destruct (List.find (by_cid (n_next_cid n)) (n_conns n)) as [c|] eqn:E; [|reflexivity].
+  apply find_cid_id in E. destruct E as [E Hin]. apply Hf in Hin. lia.
+Qed.
+
+Lemma find_app_single_other l k c : c_id c <> k -> List.find (by_cid k) (l ++ [c])%list = List.find (by_cid k) l.
+Proof.
+  intros Hne. induction l as [|a l IH]; cbn [List.app List.find].
+  - unfold by_cid. destruct (Nat.eqb (c_id c) k) eqn:E; [apply Nat.eqb_eq in E; contradiction|reflexivity].
+  - destruct (by_cid k a); [reflexivity|exact IH].
+Qed.
+
+Lemma send_message_get_conn_other n cid m k :
+  k <> cid -> get_conn (fst (send_message n cid m)) k = get_conn n k.
+Proof.
+  intros Hk. unfold get_conn. destruct (send_message_conns n cid m) as [E _]. rewrite E.
+  apply find_upd_conn_other; [reflexivity|congruence].
+Qed.
+
+Lemma own_request_get_conn_other n cid c k :
+  k <> cid -> get_conn (fst (own_request n cid c)) k = get_conn n k.
+Proof.
+  intros Hk. unfold own_request. destruct (get_conn n cid) as [cn|]; [|reflexivity]. cbn [fst].
+  unfold get_conn. cbn [n_conns set_misc set_conns]. apply find_upd_conn_other; [reflexivity|congruence].
+Qed.
+
+Lemma send_cer_get_conn_other n cid k : k <> cid -> get_conn (fst (send_cer n cid)) k = get_conn n k.
+Proof.
+  intros Hk. unfold send_cer. pose proof (own_request_get_conn_other n cid CE k Hk) as A.
+  destruct (own_request n cid CE) as [n1 m]. cbn [fst] in A. rewrite <- A. apply send_message_get_conn_other, Hk.
+Qed.
+
+Lemma remove_conn_get_conn_other n cid r k : k <> cid -> get_conn (remove_conn n cid r) k = get_conn n k.
+Proof.
+  intros Hk. unfold remove_conn. destruct (get_conn n cid) as [c|] eqn:Hc; [|reflexivity].
+  unfold get_conn. cbn [n_conns set_apps set_tables set_waiting].
+  match goal with |- List.find _ (n_conns ?x) = _ =>
+    assert (E : n_conns x = List.filter (fun x0 => negb (Nat.eqb (c_id x0) cid)) (n_conns n)) end.
+  { destruct (find_conn_peer n c) as [p|]; [destruct (p_conn p) as [k0|]; [destruct (Nat.eqb k0 cid)|]|]; reflexivity. }
+  rewrite E. apply find_filter_keep. intros x Hx. apply Nat.eqb_eq in Hx.
+  destruct (Nat.eqb (c_id x) cid) eqn:E2; [apply Nat.eqb_eq in E2; congruence|reflexivity].
+Qed.
+
+(* C12: dialling a peer touches that peer's record only, leaves every existing connection
+   alone (the new one is numbered n_next_cid n), and dials nobody else *)
+Theorem connect_to_peer_touches n nm h res n' outs :
+  cid_fresh n -> connect_to_peer n nm h res = (n', outs) ->
+  (forall nm', nm' <> nm -> get_peer n' nm' = get_peer n nm') /\
+  (forall k, k <> n_next_cid n -> get_conn n' k = get_conn n k) /\
+  n_stopping n' = n_stopping n /\ n_now n' = n_now n /\
+  (forall x, List.In (ODial x) outs -> x = nm) /\
+  (forall p, get_peer n nm = Some p -> p_conn p = None -> p_has_addr p = true -> List.In (ODial nm) outs).
+Proof.
+  intros Hf. unfold connect_to_peer.
+  destruct (get_peer n nm) as [p|] eqn:Ep;
+    [|intros H; injection H as <- <-; repeat split; try reflexivity; [intros x []|intros; discriminate]].
+  destruct (p_conn p) as [k0|] eqn:Ek;
+    [intros H; injection H as <- <-; repeat split; try reflexivity; [intros x []|intros q E; injection E as <-; congruence]|].
+  destruct (p_has_addr p) eqn:Ea; cbn [negb];
+    [|intros H; injection H as <- <-; repeat split; try reflexivity; [intros x []|intros q E; injection E as <-; congruence]].
+  cbv zeta.
+  match goal with |- context [close_conn ?x _ _] => set (n3 := x) end.
+  set (cid := n_next_cid n). set (c := new_conn cid false SConnecting nm (n_now n) h).
+  set (f := fun p0 : peer => set_pconn p0 (Some cid) None (Some (n_now n)) (p_lastdisc p0)).
+  assert (P3 : forall nm', nm' <> nm -> get_peer n3 nm' = get_peer n nm').
+  { intros nm' Hne. unfold get_peer. cbn [n3 n_peers set_peers set_tables set_misc set_conns].
+    apply find_upd_peer_other; [reflexivity|congruence]. }
+  assert (C3 : forall k, k <> cid -> get_conn n3 k = get_conn n k).
+  { intros k Hk. unfold get_conn. cbn [n3 n_conns set_peers set_tables set_misc set_conns].
+    apply find_app_single_other. cbn [c_id new_conn]. fold cid. congruence. }
+  assert (S3 : n_stopping n3 = n_stopping n) by reflexivity.
+  assert (N3 : n_now n3 = n_now n) by reflexivity.
+  assert (G3 : get_conn n3 cid = Some c).
+  { unfold get_conn. cbn [n3 n_conns set_peers set_tables set_misc set_conns]. fold cid. fold c.
+    rewrite find_app_r; [|apply fresh_find_none, Hf]. cbn [List.find]. unfold by_cid. cbn [c c_id new_conn].
+    rewrite Nat.eqb_refl. reflexivity. }
+  assert (Q3 : forall q, find_conn_peer n3 c = Some q -> p_name q = nm).
+  { intros q. unfold find_conn_peer. cbn [c c_node_name new_conn].
+    assert (E : get_peer n3 nm = Some (f p)).
+    { unfold get_peer. cbn [n3 n_peers set_peers set_tables set_misc set_conns]. apply (find_upd_peer_same _ nm f p); [reflexivity|exact Ep]. }
+    rewrite E. intros H. injection H as <-. cbn [f p_name set_pconn]. apply (get_peer_name _ _ _ Ep). }
+  clearbody n3. destruct res.
+  - match goal with |- context [send_cer ?x ?cc] => set (n4 := x) end.
+    pose proof (send_cer_keeps n4 cid) as (K1 & K2 & K3). pose proof (send_cer_out n4 cid) as [m0 Ho].
+    pose proof (send_cer_get_conn_other n4 cid) as K4.
+    destruct (send_cer n4 cid) as [n5 o]. cbn [fst snd] in *. intros H. injection H as <- <-. subst o.
+    split; [intros nm' Hne; unfold get_peer; rewrite K1; apply (P3 nm' Hne)|].
+    split.
+    { intros k Hk. rewrite (K4 k Hk). rewrite <- (C3 k Hk). unfold get_conn. cbn [n4 n_conns set_conns].
+      apply find_upd_conn_other; [reflexivity|congruence]. }
+    split; [rewrite K2; exact S3|]. split; [rewrite K3; exact N3|]. split.
+    + intros x [Hx|[Hx|[]]]; [congruence|discriminate].
+    + intros _ _ _ _. left. reflexivity.
+  - unfold close_conn. rewrite G3. intros H. injection H as <- <-.
+    pose proof (remove_conn_keeps n3 cid R_SOCKET_FAIL) as [K2 K3].
+    split.
+    { intros nm' Hne. rewrite <- (P3 nm' Hne). apply (remove_conn_peer_other _ _ _ c); [exact G3|].
+      intros q Hq. rewrite (Q3 q Hq). congruence. }
+    split; [intros k Hk; rewrite remove_conn_get_conn_other by exact Hk; apply C3, Hk|].
+    split; [rewrite K2; exact S3|]. split; [rewrite K3; exact N3|]. split.
+    + intros x [Hx|[Hx|[]]]; [congruence|discriminate].
+    + intros _ _ _ _. left. reflexivity.
+  - intros H. injection H as <- <-. split; [exact P3|]. split; [exact C3|]. split; [exact S3|]. split; [exact N3|].
+    split.
+    + intros x [Hx|[]]. congruence.
+    + intros _ _ _ _. left. reflexivity.
+Qed.
+
+(* eligibility for a reconnect at this wake-up, evaluated in n *)
+Definition elig (n : node) (nm : String.string) : bool :=
+  match get_peer n nm with Some p => wants_reconnect n p && p_has_addr p | None => false end.
+
+Lemma elig_transfer n n' nm :
+  n_stopping n' = n_stopping n -> n_now n' = n_now n -> get_peer n' nm = get_peer n nm -> elig n' nm = elig n nm.
+Proof.
+  intros Hs Hn Hp. unfold elig. rewrite Hp. destruct (get_peer n nm) as [p|]; [|reflexivity].
+  unfold wants_reconnect. rewrite Hs, Hn. reflexivity.
+Qed.
+
+Lemma reconnect_all_dials names :
+  forall n ds, cid_fresh n -> List.NoDup names ->
+  forall nm, List.In (ODial nm) (snd (fst (reconnect_all n names ds))) <-> List.In nm names /\ elig n nm = true.
+Proof.
+  induction names as [|nm0 r IH]; intros n ds Hf Hnd nm; cbn [reconnect_all].
+  - cbn [fst snd List.In]. tauto.
+  - inversion Hnd as [|? ? Hnot Hnd']; subst.
+    assert (Skip : elig n nm0 = false ->
+                   (List.In (ODial nm) (snd (fst (reconnect_all n r ds))) <-> List.In nm (nm0 :: r) /\ elig n nm = true)).
+    { intros He. rewrite (IH n ds Hf Hnd' nm). cbn [List.In]. split; [intros [H1 H2]; split; [right; exact H1|exact H2]|].
+      intros [[<-|H1] H2]; [congruence|split; assumption]. }
+    assert (Dial : forall h res dr, elig n nm0 = true ->
+              (List.In (ODial nm) (snd (fst (let '(n1, o1) := connect_to_peer n nm0 h res in
+                                             let '(n2, o2, d2) := reconnect_all n1 r dr in (n2, (o1 ++ o2)%list, d2))))
+               <-> List.In nm (nm0 :: r) /\ elig n nm = true)).
+    { intros h res dr He.
+      pose proof (connect_to_peer_frame n nm0 h res) as F.
+      destruct (connect_to_peer n nm0 h res) as [n1 o1] eqn:Ec. cbn [fst] in F.
+      pose proof (connect_to_peer_touches n nm0 h res n1 o1 Hf Ec) as (T1 & _ & T3 & T4 & T5 & T6).
+      assert (Hf1 : cid_fresh n1) by (eapply cids_fresh; [apply F|exact Hf]).
+      pose proof (IH n1 dr Hf1 Hnd' nm) as IH1. destruct (reconnect_all n1 r dr) as [[n2 o2] d2]. cbn [fst snd] in *.
+      assert (Hd : List.In (ODial nm0) o1).
+      { unfold elig in He. destruct (get_peer n nm0) as [p|] eqn:Ep; [|discriminate].
+        apply andb_true_iff in He. destruct He as [Hw Ha]. apply wants_reconnect_spec in Hw.
+        apply (T6 p); [reflexivity|apply Hw|exact Ha]. }
+      split.
+      - intros H. apply List.in_app_or in H. destruct H as [H|H].
+        + apply T5 in H. subst nm. split; [left; reflexivity|exact He].
+        + apply IH1 in H. destruct H as [H1 H2]. split; [right; exact H1|].
+          assert (Hne : nm <> nm0) by (intros ->; contradiction).
+          rewrite <- H2. symmetry. apply elig_transfer; [exact T3|exact T4|apply T1, Hne].
+      - intros [[<-|H1] H2]; apply List.in_or_app; [left; exact Hd|right].
+        apply IH1. split; [exact H1|].
+        assert (Hne : nm <> nm0) by (intros ->; contradiction).
+        rewrite <- H2. apply elig_transfer; [exact T3|exact T4|apply T1, Hne]. }
+    unfold elig in Skip, Dial. destruct (get_peer n nm0) as [p|]; [|apply Skip; reflexivity].
+    destruct (wants_reconnect n p && p_has_addr p); [|apply Skip; reflexivity].
+    destruct ds as [|[h0 res] dr]; apply Dial; reflexivity.
+Qed.
+
+(* C12: at a wake-up exactly the peers that want a reconnect (in the node as it is when the
+   pass starts) and have an address are dialled *)
+Theorem C12_reconnect_iff n names ds n' outs ds' :
+  cid_fresh n -> List.NoDup names -> reconnect_all n names ds = (n', outs, ds') ->
+  forall nm, List.In (ODial nm) outs <->
+             List.In nm names /\
+             exists p, get_peer n nm = Some p /\ wants_reconnect n p = true /\ p_has_addr p = true.
+Proof.
+  intros Hf Hnd Hr nm. pose proof (reconnect_all_dials names n ds Hf Hnd nm) as H. rewrite Hr in H. cbn [fst snd] in H.
+  rewrite H. unfold elig. split.
+  - intros [H1 H2]. split; [exact H1|]. destruct (get_peer n nm) as [p|]; [|discriminate].
+    apply andb_true_iff in H2. exists p. split; [reflexivity|exact H2].
+  - intros [H1 (p & Hp & Hw & Ha)]. split; [exact H1|]. rewrite Hp, Hw, Ha. reflexivity.
+Qed.
+
+(* C09 (corollary): with unique connection ids, get_conn yields the connection the answer went to *)
+Corollary C09_to_requester_conn n ds i a n' outs cid m :
+  List.NoDup (List.map c_id (n_conns n)) ->
+  step n ds (EAppAnswer i a) = (n', outs) -> List.In (OQueue cid m) outs -> o_req m = false ->
+  m = a /\ exists c l, get_conn n cid = Some c /\ is_ready_state (c_state c) = true /\ List.In (c_host c, l) (n_peer_waiting n) /\ mem_zz (o_hbh a, o_e2e a) l = true.
+Proof.
+  intros Hnd Hs Hin Hq. destruct (C09_to_requester _ _ _ _ _ _ _ _ Hs Hin Hq) as (E & (c & l & Hc & Hid & Hr & Hl & Hm) & _).
+  split; [exact E|]. exists c, l. subst cid. split; [apply get_conn_of_in; assumption|]. repeat split; assumption.
+Qed.
+
+(* C12 (corollary): after a DPR the connection is not offered to any application request *)
+Corollary C12_dpr_not_routed n cid m c n' outs i realm l p :
+  get_conn n cid = Some c -> recv_dpr n cid m = (n', outs) ->
+  route_request n' i realm = Some l -> List.In p l -> p_conn p <> Some cid.
+Proof.
+  intros Hc Hr Hl Hp Hk. destruct (C12_dpr _ _ _ _ _ _ Hc Hr) as (_ & (c' & Hc' & _ & Hnr & _) & _).
+  destruct (route_request_member _ _ _ _ _ Hl Hp) as (_ & _ & _ & _ & k & c1 & Hk1 & Hc1 & Hr1).
+  rewrite Hk in Hk1. injection Hk1 as <-. rewrite Hc' in Hc1. injection Hc1 as <-. congruence.
+Qed.
+
+(* C12: the persistence flags are stable along a whole run *)
+Theorem persistent_stable_run evs : forall n acc n' outs,
+  List.fold_left (fun acc de => let '(n, outs) := acc in
+                                let '(n', o) := step n (fst de) (snd de) in (n', (outs ++ [o])%list)) evs (n, acc) = (n', outs) ->
+  pmap n' = pmap n.
+Proof.
+  induction evs as [|[ds e] r IH]; intros n acc n' outs H; cbn [List.fold_left fst snd] in H.
+  - injection H as <- _. reflexivity.
+  - destruct (step n ds e) as [n1 o1] eqn:Es. apply IH in H. rewrite H.
+    destruct (step_inv _ _ _ _ _ Es) as ([E _] & _). exact E.
+Qed.
+
+Corollary persistent_stable_run' n evs : pmap (fst (run n evs)) = pmap n.
+Proof. unfold run. destruct (List.fold_left _ evs (n, [])) as [n' outs] eqn:E. cbn [fst]. eapply persistent_stable_run, E. Qed.
+
+(* the waiting lists never hold a pair twice (not needed for C09_second_fails, since pw_remove
+   drops every occurrence, but it is the reason one removal is "the" removal) *)
+Definition pw_lists_nodup (pw : list (String.string * list (Z * Z))) : Prop :=
+  forall h l, List.In (h, l) pw -> List.NoDup l.
+
+Lemma nodup_snoc {A} (l : list A) x : List.NoDup l -> ~ List.In x l -> List.NoDup (l ++ [x])%list.
+Proof.
+  induction l as [|a l IH]; intros Hnd Hx; cbn [List.app]; [constructor; [intros []|constructor]|].
+  inversion Hnd as [|? ? Ha Hl]; subst. constructor.
+  - intros H. apply List.in_app_or in H. destruct H as [H|[H|[]]]; [contradiction|]. apply Hx. left. symmetry. exact H.
+  - apply IH; [exact Hl|]. intros H. apply Hx. right. exact H.
+Qed.
+
+Lemma nodup_filter {A} (f : A -> bool) (l : list A) : List.NoDup l -> List.NoDup (List.filter f l).
+Proof.
+  induction l as [|a l IH]; intros Hnd; cbn [List.filter]; [constructor|].
+  inversion Hnd as [|? ? Ha Hl]; subst. destruct (f a); [|apply IH, Hl].
+  constructor; [|apply IH, Hl]. intros H. apply List.filter_In in H. apply Ha, H.
+Qed.
+
+Lemma pw_add_nodup pw host k : pw_lists_nodup pw -> pw_lists_nodup (pw_add pw host k).
+Proof.
+  intros Hpw h l Hin. unfold pw_add in Hin.
+  destruct (List.existsb (fun e => String.eqb (fst e) host) pw).
+  - apply List.in_map_iff in Hin. destruct Hin as [[h1 l1] [E Hin]]. cbn [fst snd] in E.
+    destruct (String.eqb h1 host); [|injection E as <- <-; eapply Hpw, Hin].
+    destruct (mem_zz k l1) eqn:Em; injection E as <- <-; [eapply Hpw, Hin|].
+    apply nodup_snoc; [eapply Hpw, Hin|]. intros H. apply mem_zz_In in H. congruence.
+  - apply List.in_app_or in Hin. destruct Hin as [Hin|[E|[]]]; [eapply Hpw, Hin|].
+    injection E as <- <-. constructor; [intros []|constructor].
+Qed.
+
+Lemma pw_remove_nodup pw host k : pw_lists_nodup pw -> pw_lists_nodup (pw_remove pw host k).
+Proof.
+  intros Hpw h l Hin. unfold pw_remove in Hin. apply List.in_map_iff in Hin.
+  destruct Hin as [[h1 l1] [E Hin]]. cbn [fst snd] in E.
+  destruct (String.eqb h1 host); injection E as <- <-; [|eapply Hpw, Hin].
+  apply nodup_filter. eapply Hpw, Hin.
+Qed.
+
+(* ================================================================================== *)
+(* 11. examples on a small concrete node (hypotheses are satisfiable, conclusions compute) *)
+(* ================================================================================== *)
+Module Examples.
+Import String.
+Local Open Scope string_scope.
+Definition ex_cfg : cfg :=
+  {| g_host := "n.local"; g_realm := "local"; g_cea := 4; g_cer := 4; g_dwa := 4; g_idle := 20; g_wakeup := 6;
+     g_rsize := 10%nat; g_validate := true; g_state_id := 1 |}.
+Definition ex_peer (nm : string) (pers : bool) (conn : option nat) (lastdisc : option Z) : peer :=
+  {| p_name := nm; p_realm := "r"; p_has_addr := true; p_persistent := pers; p_always := false;
+     p_cea := None; p_cer := None; p_dwa := None; p_idle := None; p_rwait := 30;
+     p_conn := conn; p_reason := None; p_lastconn := None; p_lastdisc := lastdisc; p_reqs := 0 |}.
+Definition ex_conn (id : nat) (host : string) (st : cstate) : conn :=
+  {| c_id := id; c_recv := true; c_state := st; c_node_name := host; c_host := host; c_last_read := 100;
+     c_last_dwr := 0; c_auth := [1]; c_acct := []; c_hbh := 7; c_sock_open := true; c_stalled := false;
+     c_out := []; c_workers := true |}.
+Definition ex_app : app := {| a_id := 1; a_auth := true; a_acct := false; a_ready := true; a_waiting := [] |}.
+Definition ex_node : node :=
+  {| n_cfg := ex_cfg; n_now := 100; n_io_deadline := 106; n_stopping := false;
+     n_peers := [ex_peer "p1" true (Some 0%nat) None; ex_peer "p2" true (Some 1%nat) None;
+                 ex_peer "p3" true None (Some 50); ex_peer "p4" false None (Some 50)];
+     n_conns := [ex_conn 0 "p1" SReady; ex_conn 1 "p2" SReady]; n_next_cid := 2;
+     n_half_ready := []; n_socket_peers := [0; 1]%nat;
+     n_routes := [("r", [(RApp 0, ["p1"; "p2"])])]; n_apps := [ex_app];
+     n_app_waiting := []; n_peer_waiting := [("p1", [(5, 9)])]; n_origin_waiting := []; n_sent_answers := [];
+     n_e2e := 50 |}.
+Definition ex_ans : omsg :=
+  {| o_cmd := App 272; o_req := false; o_app := 1; o_hbh := 5; o_e2e := 9; o_result := Some 2001; o_failed := []; o_tag := 3 |}.
+Definition ex_req_in : msg :=
+  {| m_cmd := App 272; m_req := true; m_p := true; m_e := false; m_t := false; m_app := 1; m_hbh := 77; m_e2e := 88;
+     m_origin := Present "p1"; m_drealm := Present "r"; m_result := Absent; m_missing := []; m_has_failed_avp_slot := true;
+     m_auth := []; m_acct := []; m_tag := 4 |}.
+Definition ex_req_out : omsg :=
+  {| o_cmd := App 272; o_req := true; o_app := 0; o_hbh := 0; o_e2e := 0; o_result := None; o_failed := []; o_tag := 5 |}.
+Definition ex_dpr : msg :=
+  {| m_cmd := DP; m_req := true; m_p := false; m_e := false; m_t := false; m_app := 0; m_hbh := 21; m_e2e := 22;
+     m_origin := Present "p1"; m_drealm := Absent; m_result := Absent; m_missing := []; m_has_failed_avp_slot := true;
+     m_auth := []; m_acct := []; m_tag := 6 |}.
+
+Definition ex_cer2 (e2e : Z) : omsg :=
+  {| o_cmd := CE; o_req := true; o_app := 0; o_hbh := 1; o_e2e := e2e; o_result := None; o_failed := []; o_tag := 0 |}.
+
+(* C09_to_requester / C09_answer_shape: the answer goes to connection 0 (host p1, ready, pair (5,9)
+   waiting); the same macro step also dials p3 and queues the CER for it *)
+Example ex_C09_to_requester :
+  snd (step ex_node [(1, DialInProgress)] (EAppAnswer 0 ex_ans)) = [OQueue 0 ex_ans; OSend 0 ex_ans; ODial "p3"]
+  /\ snd (step ex_node [] (EAppAnswer 0 ex_ans))
+     = [OQueue 0 ex_ans; OSend 0 ex_ans; ODial "p3"; OQueue 2 (ex_cer2 51); OSend 2 (ex_cer2 51)]
+  /\ List.length (List.filter is_answer_queue (snd (step ex_node [] (EAppAnswer 0 ex_ans)))) = 1%nat
+  /\ get_conn ex_node 0 = Some (ex_conn 0 "p1" SReady)
+  /\ n_peer_waiting ex_node = [("p1", [(5, 9)])].
+Proof. vm_compute. repeat split. Qed.
+
+(* C09_entry_from_delivery / C09_entry_host: the pair (77,88) appears under p1 with the delivery *)
+Example ex_C09_entry_from_delivery :
+  List.In (ODeliver 0 ex_req_in) (snd (step ex_node [] (ERecv 0 [ex_req_in])))
+  /\ n_peer_waiting (fst (step ex_node [] (ERecv 0 [ex_req_in]))) = [("p1", [(5, 9); (77, 88)])]
+  /\ snd (recv_app_request ex_node 0 ex_req_in) = [ODeliver 0 ex_req_in]
+  /\ n_peer_waiting (fst (recv_app_request ex_node 0 ex_req_in)) = [("p1", [(5, 9); (77, 88)])].
+Proof. vm_compute. split; [right; right; left; reflexivity|repeat split]. Qed.
+
+(* C09_gone_is_error: an answer nobody waits for *)
+Example ex_C09_gone_is_error :
+  (forall h l, List.In (h, l) (n_peer_waiting ex_node) -> mem_zz (o_hbh ex_req_out, o_e2e ex_req_out) l = false)
+  /\ snd (step ex_node [] (EAppAnswer 0 ex_req_out)) = [ONotRoutable].
+Proof. split; [|vm_compute; reflexivity]. intros h l [H|[]]. injection H as <- <-. vm_compute. reflexivity. Qed.
+
+(* C09_second_fails / C09_second_is_error: the second submission is refused *)
+Example ex_C09_second_fails :
+  fst (route_answer ex_node ex_ans) = Some 0%nat
+  /\ n_peer_waiting (snd (route_answer ex_node ex_ans)) = [("p1", [])]
+  /\ snd (step (fst (step ex_node [] (EAppAnswer 0 ex_ans))) [] (EAppAnswer 0 ex_ans)) = [ONotRoutable].
+Proof. vm_compute. repeat split. Qed.
+
+(* C09_removed_on_close *)
+Example ex_C09_removed_on_close : n_peer_waiting (remove_conn ex_node 0 R_GONE) = [].
+Proof. vm_compute. reflexivity. Qed.
+
+(* route_request_spec: both ready peers of application 0's list; unknown realm *)
+Example ex_route_request_spec :
+  route_request ex_node 0 (Present "r") = Some [ex_peer "p1" true (Some 0%nat) None; ex_peer "p2" true (Some 1%nat) None]
+  /\ chosen_names ex_node 0 (Present "r") = Some ["p1"; "p2"]
+  /\ route_request ex_node 0 (Present "nowhere") = None
+  /\ route_request ex_node 0 Absent = None.
+Proof. vm_compute. repeat split. Qed.
+
+Definition ex_req_sent : omsg :=
+  {| o_cmd := App 272; o_req := true; o_app := 1; o_hbh := 8; o_e2e := 51; o_result := None; o_failed := []; o_tag := 5 |}.
+
+(* C10_eligible / C10_request_shape / C10_hbh_fresh: pick 1 of 2 -> p2 -> connection 1; hop-by-hop id 8 = seq_next 7 *)
+Example ex_C10_eligible :
+  snd (step ex_node [(1, DialInProgress)] (EAppRequest 0 ex_req_out (Present "r") 1 10))
+  = [OQueue 1 ex_req_sent; OSend 1 ex_req_sent; ODial "p3"]
+  /\ choose [ex_peer "p1" true (Some 0%nat) None; ex_peer "p2" true (Some 1%nat) None] 1 = Some (ex_peer "p2" true (Some 1%nat) None).
+Proof. vm_compute. repeat split. Qed.
+
+Example ex_C10_hbh_fresh :
+  o_hbh ex_req_out = 0 /\ o_hbh ex_req_sent = seq_next (c_hbh (ex_conn 1 "p2" SReady))
+  /\ option_map c_hbh (get_conn (fst (step ex_node [(1, DialInProgress)] (EAppRequest 0 ex_req_out (Present "r") 1 10))) 1) = Some 8
+  /\ seq_next 4294967295 = 1.
+Proof. vm_compute. repeat split. Qed.
+
+(* C10_none_is_error *)
+Example ex_C10_none_is_error :
+  route_request ex_node 0 (Present "nowhere") = None
+  /\ snd (step ex_node [] (EAppRequest 0 ex_req_out (Present "nowhere") 1 10)) = [ONotRoutable].
+Proof. vm_compute. repeat split. Qed.
+
+Definition ex_node_sent : node := fst (step ex_node [(1, DialInProgress)] (EAppRequest 0 ex_req_out (Present "r") 1 10)).
+Definition ex_ans_in : msg :=
+  {| m_cmd := App 272; m_req := false; m_p := true; m_e := false; m_t := false; m_app := 1; m_hbh := 8; m_e2e := 51;
+     m_origin := Present "p2"; m_drealm := Absent; m_result := Present 2001; m_missing := []; m_has_failed_avp_slot := false;
+     m_auth := []; m_acct := []; m_tag := 9 |}.
+
+(* C10_correlation / C10_duplicate_ignored: the answer goes to the blocked caller of application 0; its copy is ignored *)
+Example ex_C10_correlation :
+  aw_lookup ex_node_sent ex_ans_in = Some 0%nat
+  /\ snd (recv_app_answer ex_node_sent ex_ans_in) = [OAnswerTo 0 ex_ans_in]
+  /\ snd (recv_app_answer (fst (recv_app_answer ex_node_sent ex_ans_in)) ex_ans_in) = []
+  /\ snd (recv_app_answer ex_node ex_ans_in) = [].
+Proof. vm_compute. repeat split. Qed.
+
+(* C12_dpr *)
+Example ex_C12_dpr :
+  snd (recv_dpr ex_node 0 ex_dpr) = [OQueue 0 (answer_of ex_dpr (Some 2001) [])]
+  /\ option_map c_state (get_conn (fst (recv_dpr ex_node 0 ex_dpr)) 0) = Some SDisconnecting
+  /\ option_map p_reason (get_peer (fst (recv_dpr ex_node 0 ex_dpr)) "p1") = Some (Some R_DPR)
+  /\ route_request (fst (recv_dpr ex_node 0 ex_dpr)) 0 (Present "r") = Some [ex_peer "p2" true (Some 1%nat) None].
+Proof. vm_compute. repeat split. Qed.
+
+(* wants_reconnect_spec *)
+Example ex_wants_reconnect_spec :
+  wants_reconnect ex_node (ex_peer "p3" true None (Some 50)) = true
+  /\ wants_reconnect ex_node (ex_peer "p3" true None (Some 90)) = false
+  /\ wants_reconnect ex_node (ex_peer "p4" false None (Some 50)) = false
+  /\ wants_reconnect ex_node (ex_peer "p1" true (Some 0%nat) (Some 50)) = false.
+Proof. vm_compute. repeat split. Qed.
+
+(* C12_reconnect_iff / C12_never_nonpersistent / C12_dial_needs_no_connection / persistent_stable *)
+Example ex_C12_reconnect_iff :
+  snd (fst (reconnect_all ex_node ["p1"; "p2"; "p3"; "p4"] [(1, DialInProgress)])) = [ODial "p3"]
+  /\ elig ex_node "p3" = true /\ elig ex_node "p1" = false /\ elig ex_node "p4" = false.
+Proof. vm_compute. repeat split. Qed.
+
+Example ex_C12_never_nonpersistent :
+  snd (step ex_node [(1, DialInProgress); (1, DialInProgress); (1, DialInProgress)] EStart) = [ODial "p3"]
+  /\ snd (step ex_node [(1, DialInProgress)] (ETick 10)) = [ODial "p3"]
+  /\ pmap (fst (step ex_node [(1, DialRefused)] (ETick 10))) = pmap ex_node.
+Proof. vm_compute. repeat split. Qed.
+
+Example ex_C12_dial_needs_no_connection : connect_to_peer ex_node "p1" 0 DialOk = (ex_node, []).
+Proof. vm_compute. reflexivity. Qed.
+
+Example ex_cid_fresh : cid_fresh ex_node.
+Proof. intros c [<-|[<-|[]]]; vm_compute; lia. Qed.
+End Examples.
+
+(* ================================================================================== *)
+(* 12. assumptions                                                                    *)
+(* ================================================================================== *)
+Print Assumptions C09_answer_shape.
+Print Assumptions C09_to_requester.
+Print Assumptions C09_to_requester_conn.
+Print Assumptions C09_entry_from_delivery.
+Print Assumptions C09_entry_host.
+Print Assumptions C09_gone_is_error.
+Print Assumptions C09_second_fails.
+Print Assumptions C09_second_is_error.
+Print Assumptions C09_removed_on_close.
+Print Assumptions pw_add_nodup.
+Print Assumptions pw_remove_nodup.
+Print Assumptions route_request_spec.
+Print Assumptions route_request_member.
+Print Assumptions C10_request_shape.
+Print Assumptions C10_eligible.
+Print Assumptions C10_none_is_error.
+Print Assumptions C10_hbh_fresh.
+Print Assumptions seq_next_is_next.
+Print Assumptions seq_next_neq.
+Print Assumptions C10_correlation.
+Print Assumptions C10_duplicate_ignored.
+Print Assumptions C12_dpr.
+Print Assumptions C12_dpr_not_routed.
+Print Assumptions wants_reconnect_spec.
+Print Assumptions connect_to_peer_touches.
+Print Assumptions C12_reconnect_iff.
+Print Assumptions step_inv.
+Print Assumptions C12_never_nonpersistent.
+Print Assumptions persistent_stable.
+Print Assumptions persistent_stable_run'.
+Print Assumptions C12_dial_needs_no_connection.
+Print Assumptions cid_fresh_step.
